@@ -1,6 +1,7 @@
 (* C13 — the refinement M = S on the guard, for all histories: abstraction relation between the state
-   of the code model M (denormalised tables) and of the specification S (visibility recomputed from
-   the graph), preserved by every guarded step. *)
+   of the code model M (denormalised tables of the repaired package.go) and of the specification S
+   (visibility recomputed from the graph), preserved by every guarded step.  No name discipline and no
+   conflict-freedom is needed any more: the relation is just "every table entry is the resolution". *)
 From C13 Require Import Model Spec Corr Proofs ProofsRes.
 Open Scope N_scope.
 
@@ -10,9 +11,9 @@ Arguments eff : simpl never.
 Arguments upd : simpl never.
 Arguments upd2 : simpl never.
 Arguments inj : simpl never.
-Arguments vis : simpl never.
 Arguments N.ltb : simpl never.
 Arguments N.add : simpl never.
+Arguments inherited : simpl never.
 
 Definition vexp_of (h : addr -> option varval) (a : addr) : bool :=
   match h a with Some vv => vv_export vv | None => false end.
@@ -26,7 +27,6 @@ Definition frel (o1 : option funinfo) (o2 : option sfuninfo) : Prop :=
   | None, None => True
   | _, _ => False
   end.
-Definition junk : varval := {| vv_pkg := None; vv_val := None; vv_export := true |}.
 
 Lemma opt_addr_eqb_eq a b : opt_addr_eqb a b = true <-> a = b.
 Proof.
@@ -34,53 +34,59 @@ Proof.
   - apply N.eqb_eq in H. congruence.
   - injection H as ->. apply N.eqb_refl.
 Qed.
-
+Lemma is_some_false a : is_some a = false -> a = None.
+Proof. destruct a; [discriminate|reflexivity]. Qed.
 Lemma mem_single x y : mem x [y] = N.eqb x y.
 Proof. unfold mem. cbn. apply orb_false_r. Qed.
+Lemma eff_offer (own : tbl) exp q n : eff own exp q n = own_offer own exp q n.
+Proof. reflexivity. Qed.
+Lemma upd2_cases {A} (f : N -> N -> A) k1 k2 v a b :
+  (a = k1 /\ b = k2 /\ upd2 f k1 k2 v a b = v) \/ (~ (a = k1 /\ b = k2) /\ upd2 f k1 k2 v a b = f a b).
+Proof.
+  unfold upd2. destruct (N.eqb_spec a k1), (N.eqb_spec b k2); cbn; auto; right; split; auto; tauto.
+Qed.
+Lemma res_exp_ext (own : tbl) exp exp' us p n : (forall a, exp a = exp' a) -> res own exp us p n = res own exp' us p n.
+Proof. intros H. apply res_ext; auto. intros q _. unfold eff. destruct (own q n); [rewrite H|]; reflexivity. Qed.
+Lemma res_all_none (own : tbl) exp us p n : (forall q, own q n = None) -> res own exp us p n = None.
+Proof.
+  intros H. apply res_none_intro; [apply H|]. intros q _. unfold eff. rewrite H. reflexivity.
+Qed.
+Lemma upd2_none_noop (f : tbl) k1 k2 : f k1 k2 = None -> forall p n, f p n = upd2 f k1 k2 None p n.
+Proof. intros H p n. destruct (upd2_cases f k1 k2 None p n) as [(-> & -> & ->)|[_ ->]]; auto. Qed.
+Lemma pair_eqb_cases (p n p0 n0 : N) :
+  (p = p0 /\ n = n0 /\ N.eqb p p0 && N.eqb n n0 = true) \/ (~ (p = p0 /\ n = n0) /\ N.eqb p p0 && N.eqb n n0 = false).
+Proof. destruct (N.eqb_spec p p0), (N.eqb_spec n n0); cbn; auto; right; split; auto; tauto. Qed.
+
+Lemma forallb_ext' {A} (f g : A -> bool) l : (forall x, f x = g x) -> forallb f l = forallb g l.
+Proof. intros H. induction l as [|x l IH]; [reflexivity|]. cbn. rewrite H, IH. reflexivity. Qed.
 
 Section Refine.
-  Variables (P : list pkgid) (VN FN : list name).
-  Hypothesis Hdisj : disjoint_names VN FN = true.
-  Definition NMl := VN ++ FN.
-
-  Lemma disj n : mem n VN = true -> mem n FN = false.
-  Proof.
-    intros H. apply mem_In in H. unfold disjoint_names in Hdisj. rewrite forallb_forall in Hdisj.
-    specialize (Hdisj n H). destruct (mem n FN); [discriminate|reflexivity].
-  Qed.
-  Lemma nm_vn n : mem n VN = true -> mem n NMl = true.
-  Proof. intros H. unfold NMl. rewrite mem_app, H. reflexivity. Qed.
-  Lemma nm_fn n : mem n FN = true -> mem n NMl = true.
-  Proof. intros H. unfold NMl. rewrite mem_app, H. apply orb_true_r. Qed.
+  Variables (P : list pkgid) (NM : list name).
 
   Record Cinv (m : state) (s : sstate) : Prop := {
     c_uses : forall p, uses m p = s_uses s p;
     c_users : forall u p, mem u (users m p) = mem p (s_uses s u);
     c_cur : cur m = s_cur s;
-    c_wf : forall p q, In q (s_uses s p) -> mem p P = true /\ p <> q }.
+    c_wf : forall p q, In q (s_uses s p) -> mem p P = true /\ p <> q;
+    c_nd_uses : forall p, NoDup (s_uses s p);
+    c_nd_users : forall p, NoDup (users m p) }.
 
   (* variable side: table T, heap mh and counter mn of M; own table, heap sh, counter sn, use lists of S *)
   Record RVp (T : tbl) (mh : addr -> option varval) (mn : addr)
              (own : tbl) (sh : addr -> option varval) (sn : addr) (us : pkgid -> list pkgid) : Prop := {
     v_heap : forall a, mh a = sh a;
     v_next : mn = sn;
-    v_tab : forall p n, mem n VN = true -> T p n = res own (vexp_of sh) us p n;
-    v_weak : forall p n, res own (vexp_of sh) us p n = None -> T p n = None;
-    v_own : forall p n a, own p n = Some a -> a < sn /\ mem n NMl = true;
-    v_inj : inj own;
-    v_vn : forall p n a, mem n VN = true -> own p n = Some a ->
-           exists vv, sh a = Some vv /\ vv_val vv <> None /\ vv_pkg vv = Some p;
-    v_junk : forall p n a, mem n VN = false -> own p n = Some a -> sh a = Some junk;
-    v_vis : vis (fun n => mem n VN) own (vexp_of sh) us }.
+    v_tab : forall p n, T p n = res own (vexp_of sh) us p n;
+    v_own : forall p n a, own p n = Some a -> a < sn /\ mem n NM = true /\ exists vv, sh a = Some vv /\ vv_pkg vv = Some p;
+    v_inj : inj own }.
   Record RFp (T : tbl) (mh : addr -> option funinfo) (lh : addr -> option Z) (pl : tbl) (mn ln : addr)
              (own : tbl) (sh : addr -> option sfuninfo) (sn : addr) (us : pkgid -> list pkgid) : Prop := {
     f_heap : forall a, frel (mh a) (sh a);
     f_next : mn = sn;
     f_tab : forall p n, T p n = res own (fexp_of sh) us p n;
     f_own : forall p n a, own p n = Some a ->
-            a < sn /\ mem n FN = true /\ exists fi, sh a = Some fi /\ sf_pkg fi = p;
+            a < sn /\ mem n NM = true /\ exists fi, sh a = Some fi /\ sf_pkg fi = p;
     f_inj : inj own;
-    f_vis : vis (fun _ => true) own (fexp_of sh) us;
     (* the FuncInfo of a live (own) cell refers to a Lambda holding the value S has, and that Lambda is
        registered in Package.lambdas at most under the cell's own (home, name): a later defun elsewhere
        cannot patch it *)
@@ -94,19 +100,12 @@ Section Refine.
     RFp (funcs m) (fheap m) (lheap m) (plam m) (fnext m) (lnext m) (own_f s) (s_fheap s) (s_fnext s) (s_uses s).
   Definition Inv (m : state) (s : sstate) : Prop := Cinv m s /\ RV m s /\ RF m s.
 
-  Lemma res_all_none (own : tbl) exp us p n : (forall q, own q n = None) -> res own exp us p n = None.
-  Proof.
-    intros H. apply res_none_intro; [apply H|]. intros q _. unfold eff. rewrite H. reflexivity.
-  Qed.
-
   Lemma inv_init p0 : Inv (init p0) (sinit p0).
   Proof.
     split; [|split].
-    - constructor; cbn; auto. all: try (intros ? ? []).
-    - constructor; cbn; auto; try discriminate.
-      all: try (intros p n p' n' a H; discriminate). all: try (intros u q n a _ []).
-    - constructor; cbn; auto; try discriminate.
-      all: try (intros p n p' n' a H; discriminate). all: try (intros u q n a _ []).
+    - constructor; cbn; auto; try (intros ? ? []); intros; constructor.
+    - constructor; cbn; auto; try discriminate; intros p n p' n' a H; discriminate.
+    - constructor; cbn; auto; try discriminate; intros p n p' n' a H; discriminate.
   Qed.
 
   (* ---- facts that follow from the relation ---- *)
@@ -118,8 +117,8 @@ Section Refine.
 
     Lemma noself_uses : noself (s_uses s).
     Proof. intros p Hp. destruct (c_wf _ _ HC _ _ Hp) as [_ H]. congruence. Qed.
-    Lemma vexp_eq a : vexp_of (vheap m) a = vexp_of (s_vheap s) a.
-    Proof. unfold vexp_of. rewrite (v_heap _ _ _ _ _ _ _ HV). reflexivity. Qed.
+    Lemma vexp_eq a : vv_exported m a = vexp_of (s_vheap s) a.
+    Proof. unfold vv_exported, vexp_of. rewrite (v_heap _ _ _ _ _ _ _ HV). reflexivity. Qed.
     Lemma fheap_of_s a sf : s_fheap s a = Some sf ->
       exists fi, fheap m a = Some fi /\ fi_pkg fi = sf_pkg sf /\ fi_export fi = sf_export sf.
     Proof.
@@ -131,24 +130,15 @@ Section Refine.
       unfold fi_exported, fexp_of. pose proof (f_heap _ _ _ _ _ _ _ _ _ _ HF a) as Hr. unfold frel in Hr.
       destruct (fheap m a), (s_fheap s a); try contradiction; tauto.
     Qed.
-    Lemma ownf_vn p n : mem n VN = true -> own_f s p n = None.
-    Proof.
-      intros H. destruct (own_f s p n) as [a|] eqn:E; [|reflexivity].
-      destruct (f_own _ _ _ _ _ _ _ _ _ _ HF _ _ _ E) as (_ & H2 & _). rewrite (disj _ H) in H2. discriminate.
-    Qed.
-    Lemma resf_vn p n : mem n VN = true -> resolve_f s p n = None.
-    Proof. intros H. apply res_all_none. intros q. apply ownf_vn, H. Qed.
-    Lemma funcs_vn p n : mem n VN = true -> funcs m p n = None.
-    Proof. intros H. rewrite (f_tab _ _ _ _ _ _ _ _ _ _ HF). apply resf_vn, H. Qed.
-    Lemma resv_nonm p n : mem n NMl = false -> resolve_v s p n = None.
+    Lemma resv_nonm p n : mem n NM = false -> resolve_v s p n = None.
     Proof.
       intros H. apply res_all_none. intros q. destruct (own_v s q n) as [a|] eqn:E; [|reflexivity].
-      destruct (v_own _ _ _ _ _ _ _ HV _ _ _ E) as [_ H2]. congruence.
+      destruct (v_own _ _ _ _ _ _ _ HV _ _ _ E) as (_ & H2 & _). congruence.
     Qed.
-    Lemma resf_nonm p n : mem n NMl = false -> resolve_f s p n = None.
+    Lemma resf_nonm p n : mem n NM = false -> resolve_f s p n = None.
     Proof.
       intros H. apply res_all_none. intros q. destruct (own_f s q n) as [a|] eqn:E; [|reflexivity].
-      destruct (f_own _ _ _ _ _ _ _ _ _ _ HF _ _ _ E) as (_ & H2 & _). rewrite (nm_fn _ H2) in H. discriminate.
+      destruct (f_own _ _ _ _ _ _ _ _ _ _ HF _ _ _ E) as (_ & H2 & _). congruence.
     Qed.
     Lemma in_s_users u p : In p (s_uses s u) -> In u (s_users P s p).
     Proof.
@@ -156,55 +146,107 @@ Section Refine.
       - apply mem_In. exact (proj1 (c_wf _ _ HC _ _ H)).
       - apply mem_In, H.
     Qed.
-    Lemma s_users_nil p u : s_users P s p = [] -> ~ In p (s_uses s u).
-    Proof. intros H Hi. apply in_s_users in Hi. rewrite H in Hi. exact Hi. Qed.
     Lemma mem_users u p : mem u (users m p) = true <-> In p (s_uses s u).
     Proof. rewrite (c_users _ _ HC). apply mem_In. Qed.
+    Lemma users_forall (F : pkgid -> bool) p :
+      forallb F (s_users P s p) = true -> forall u, In p (s_uses s u) -> F u = true.
+    Proof. intros H u Hu. rewrite forallb_forall in H. apply H, in_s_users, Hu. Qed.
+
+    (* what a name resolves to is the own cell of some package, which is its home *)
+    Lemma resv_cell p n a :
+      resolve_v s p n = Some a ->
+      exists q vv, own_v s q n = Some a /\ s_vheap s a = Some vv /\ vv_pkg vv = Some q /\ (q = p \/ In q (s_uses s p)).
+    Proof.
+      intros Hr. apply res_some_inv in Hr. destruct Hr as [Hr|(_ & q & Hq & Hf)].
+      - destruct (v_own _ _ _ _ _ _ _ HV _ _ _ Hr) as (_ & _ & vv & H1 & H2). eauto 8.
+      - apply eff_some in Hf. destruct Hf as [Hf _].
+        destruct (v_own _ _ _ _ _ _ _ HV _ _ _ Hf) as (_ & _ & vv & H1 & H2). eauto 8.
+    Qed.
+    Lemma resf_cell p n a :
+      resolve_f s p n = Some a ->
+      exists q fi, own_f s q n = Some a /\ s_fheap s a = Some fi /\ sf_pkg fi = q /\ (q = p \/ In q (s_uses s p)).
+    Proof.
+      intros Hr. apply res_some_inv in Hr. destruct Hr as [Hr|(_ & q & Hq & Hf)].
+      - destruct (f_own _ _ _ _ _ _ _ _ _ _ HF _ _ _ Hr) as (_ & _ & fi & H1 & H2). eauto 8.
+      - apply eff_some in Hf. destruct Hf as [Hf _].
+        destruct (f_own _ _ _ _ _ _ _ _ _ _ HF _ _ _ Hf) as (_ & _ & fi & H1 & H2). eauto 8.
+    Qed.
+    (* the test vv.Pkg == obj / fi.Pkg == obj on a table entry recognises exactly the own cells *)
+    Lemma home_v p n a : resolve_v s p n = Some a -> (vv_home m p a = true <-> own_v s p n = Some a).
+    Proof.
+      intros Hr. destruct (resv_cell _ _ _ Hr) as (q & vv & Ho & Hh & Hp & Hq).
+      unfold vv_home. rewrite (v_heap _ _ _ _ _ _ _ HV), Hh, Hp. cbn. split.
+      - intros E. apply N.eqb_eq in E. congruence.
+      - intros Ho'. destruct (v_inj _ _ _ _ _ _ _ HV _ _ _ _ _ Ho Ho') as [-> _]. apply N.eqb_refl.
+    Qed.
+    Lemma home_f p n a : resolve_f s p n = Some a -> (fi_home m p a = true <-> own_f s p n = Some a).
+    Proof.
+      intros Hr. destruct (resf_cell _ _ _ Hr) as (q & sf & Ho & Hh & Hp & Hq).
+      destruct (fheap_of_s _ _ Hh) as (fi & Hm & Hmp & _).
+      unfold fi_home. rewrite Hm, Hmp, Hp. split.
+      - intros E. apply N.eqb_eq in E. congruence.
+      - intros Ho'. destruct (f_inj _ _ _ _ _ _ _ _ _ _ HF _ _ _ _ _ Ho Ho') as [-> _]. apply N.eqb_refl.
+    Qed.
+    (* an entry of a user whose home is p under the name n is p's own cell *)
+    Lemma home_v_is_own p u n x a :
+      own_v s p n = Some a -> resolve_v s u n = Some x -> (vv_home m p x = true <-> x = a).
+    Proof.
+      intros Ho Hr. destruct (resv_cell _ _ _ Hr) as (q & vv & Hox & Hh & Hp & _).
+      unfold vv_home. rewrite (v_heap _ _ _ _ _ _ _ HV), Hh, Hp. cbn. split.
+      - intros E. apply N.eqb_eq in E. congruence.
+      - intros ->. destruct (v_inj _ _ _ _ _ _ _ HV _ _ _ _ _ Ho Hox) as [-> _]. apply N.eqb_refl.
+    Qed.
+    Lemma home_f_is_own p u n x a :
+      own_f s p n = Some a -> resolve_f s u n = Some x -> (fi_home m p x = true <-> x = a).
+    Proof.
+      intros Ho Hr. destruct (resf_cell _ _ _ Hr) as (q & sf & Hox & Hh & Hp & _).
+      destruct (fheap_of_s _ _ Hh) as (fi & Hm & Hmp & _).
+      unfold fi_home. rewrite Hm, Hmp, Hp. split.
+      - intros E. apply N.eqb_eq in E. congruence.
+      - intros ->. destruct (f_inj _ _ _ _ _ _ _ _ _ _ HF _ _ _ _ _ Ho Hox) as [-> _]. apply N.eqb_refl.
+    Qed.
+    Lemma vtab p n : vars m p n = resolve_v s p n.
+    Proof. apply (v_tab _ _ _ _ _ _ _ HV). Qed.
+    Lemma ftab p n : funcs m p n = resolve_f s p n.
+    Proof. apply (f_tab _ _ _ _ _ _ _ _ _ _ HF). Qed.
   End Facts.
 
-  Lemma use_entry (own : tbl) exp us p q n (Tq Tp : option addr) (mexp : addr -> bool) :
-    Tq = res own exp us q n -> Tp = res own exp us p n -> (forall a, mexp a = exp a) ->
-    match own q n with
-    | Some a => negb (exp a) || opt_addr_eqb (res own exp us p n) None
-    | None => match res own exp us q n with Some a => opt_addr_eqb (res own exp us p n) (Some a) | None => true end
-    end = true ->
-    match Tq with Some a => if mexp a then Some a else Tp | None => Tp end =
-    match res own exp us p n with Some a => Some a | None => eff own exp q n end.
+  Lemma step_inpkg m s p : Inv m s -> Inv (step m (OInPkg p)) (sstep s (OInPkg p)).
   Proof.
-    intros -> -> Hm G. unfold eff. destruct (own q n) as [a|] eqn:Eo.
-    - rewrite (res_own _ _ _ _ _ _ Eo). rewrite Hm. destruct (exp a) eqn:Ee; cbn in G.
-      + apply opt_addr_eqb_eq in G. rewrite G. reflexivity.
-      + destruct (res own exp us p n); reflexivity.
-    - destruct (res own exp us q n) as [a|] eqn:Er.
-      + apply opt_addr_eqb_eq in G. rewrite G.
-        apply res_some_inv in Er. destruct Er as [Er|(_ & q' & _ & Hf)]; [congruence|].
-        apply eff_some in Hf. rewrite Hm, (proj2 Hf). reflexivity.
-      + destruct (res own exp us p n); reflexivity.
+    intros (HC & HV & HF). split; [|split]; [|exact HV|exact HF].
+    destruct HC. constructor; cbn; auto.
   Qed.
 
-  Lemma guard_use_inv s q p :
-    guard_step P NMl s (OUse q p) = true ->
-    mem p P = true /\ forall n, mem n NMl = true ->
-      match own_v s q n with
-      | Some a => negb (s_vexp s a) || opt_addr_eqb (resolve_v s p n) None
-      | None => match resolve_v s q n with Some a => opt_addr_eqb (resolve_v s p n) (Some a) | None => true end
-      end = true /\
-      match own_f s q n with
-      | Some a => negb (s_fexp s a) || opt_addr_eqb (resolve_f s p n) None
-      | None => match resolve_f s q n with Some a => opt_addr_eqb (resolve_f s p n) (Some a) | None => true end
-      end = true.
+  (* ---- use-package ---- *)
+  Lemma use_entry (own : tbl) exp us p q n (Tp Tq : option addr) (mexp : addr -> bool) :
+    Tp = res own exp us p n -> Tq = res own exp us q n -> (forall a, mexp a = exp a) ->
+    is_some (res own exp us p n) || opt_addr_eqb (offer exp (res own exp us q n)) (own_offer own exp q n) = true ->
+    match Tp with
+    | Some x => Some x
+    | None => match Tq with Some a => if mexp a then Some a else None | None => None end
+    end = match res own exp us p n with Some a => Some a | None => eff own exp q n end.
   Proof.
-    cbn [guard_step]. intros H. apply andb_true_iff in H. destruct H as [H H2]. apply andb_true_iff in H. destruct H as [H0 H1].
-    split; [exact H0|]. intros n Hn. rewrite forallb_forall in H2. specialize (H2 n (proj1 (mem_In _ _) Hn)).
-    apply andb_true_iff in H2. exact H2.
+    intros -> -> Hm G. destruct (res own exp us p n) as [x|]; [reflexivity|]. cbn in G. apply opt_addr_eqb_eq in G.
+    rewrite eff_offer, <- G. unfold offer. destruct (res own exp us q n) as [a|]; [rewrite Hm|]; reflexivity.
+  Qed.
+  Lemma use_entry_nonm (own : tbl) exp us p q n (Tp Tq : option addr) (mexp : addr -> bool) :
+    Tp = res own exp us p n -> Tq = res own exp us q n -> (forall r, own r n = None) ->
+    match Tp with
+    | Some x => Some x
+    | None => match Tq with Some a => if mexp a then Some a else None | None => None end
+    end = match res own exp us p n with Some a => Some a | None => eff own exp q n end.
+  Proof.
+    intros -> -> H. rewrite !(res_all_none own exp us _ n H). unfold eff. rewrite H. reflexivity.
   Qed.
 
   Lemma step_use m s q p :
-    Inv m s -> guard_step P NMl s (OUse q p) = true -> Inv (step m (OUse q p)) (sstep s (OUse q p)).
+    Inv m s -> guard_step P NM s (OUse q p) = true -> Inv (step m (OUse q p)) (sstep s (OUse q p)).
   Proof.
-    intros HI G. pose proof HI as (HC & HV & HF). apply guard_use_inv in G. destruct G as [GP G].
+    intros HI G. pose proof HI as (HC & HV & HF). cbn [guard_step] in G.
+    apply andb_true_iff in G. destruct G as [G G2]. apply andb_true_iff in G. destruct G as [GP GQ].
     cbn [step sstep]. unfold use. destruct (N.eqb_spec p q) as [Epq|Npq]; [exact HI|].
-    rewrite (c_uses _ _ HC). cbn [orb]. destruct (mem q (s_uses s p)) eqn:Em; [exact HI|].
+    rewrite (c_uses _ _ HC). cbn [orb] in *. destruct (mem q (s_uses s p)) eqn:Em; [exact HI|].
+    cbn [orb] in G2. rewrite forallb_forall in G2.
     assert (Hu0 : upd (s_uses s) p (s_uses s p ++ [q]) p = s_uses s p ++ [q]) by apply upd_same.
     assert (Hu1 : forall u, u <> p -> upd (s_uses s) p (s_uses s p ++ [q]) u = s_uses s u) by (intros; apply upd_other; assumption).
     split; [|split].
@@ -219,121 +261,148 @@ Section Refine.
       + intros p' q' Hi. destruct (N.eq_dec p' p) as [->|Hp].
         * rewrite Hu0 in Hi. apply in_app_or in Hi. destruct Hi as [Hi|[<-|[]]]; [exact (c_wf _ _ HC _ _ Hi)|auto].
         * rewrite Hu1 in Hi by exact Hp. exact (c_wf _ _ HC _ _ Hi).
-    - pose proof HV as [h1 h2 h3 h4 h5 h6 h7 h8 h9]. constructor; cbn; auto.
-      + intros p' n Hn. destruct (N.eqb_spec p' p) as [->|Hp].
-        * rewrite (res_use_self _ _ _ _ p q Hu0). apply use_entry; auto.
-          -- intros a. unfold vv_exported, vexp_of. rewrite h1. reflexivity.
-          -- exact (proj1 (G n (nm_vn _ Hn))).
-        * rewrite (res_use_other _ _ _ _ p Hu1) by exact Hp. auto.
-      + intros p' n. destruct (N.eqb_spec p' p) as [->|Hp].
-        * rewrite (res_use_self _ _ _ _ p q Hu0). intros Hr.
-          destruct (res (own_v s) (vexp_of (s_vheap s)) (s_uses s) p n) as [x|] eqn:Erp; [discriminate|].
-          rewrite (h4 _ _ Erp). destruct (vars m q n) as [x|] eqn:Eq; [|reflexivity].
-          destruct (vv_exported m x) eqn:Ex; [exfalso|reflexivity].
-          destruct (res (own_v s) (vexp_of (s_vheap s)) (s_uses s) q n) as [y|] eqn:Erq; [|rewrite (h4 _ _ Erq) in Eq; discriminate].
-          assert (Hnm : mem n NMl = true).
-          { destruct (mem n NMl) eqn:E; [reflexivity|].
-            pose proof (resv_nonm m s HV q n E : res (own_v s) (vexp_of (s_vheap s)) (s_uses s) q n = None) as Hx.
-            congruence. }
-          destruct (G n Hnm) as [Gv _]. rewrite !resolve_v_res in Gv. unfold s_vexp in Gv. fold (vexp_of (s_vheap s)) in Gv.
-          destruct (own_v s q n) as [y'|] eqn:Eo.
-          -- rewrite (res_own _ _ _ _ _ _ Eo) in Erq. injection Erq as ->. unfold eff in Hr. rewrite Eo in Hr.
-             destruct (mem n VN) eqn:Ev.
-             ++ rewrite (h3 _ _ Ev), (res_own _ _ _ _ _ _ Eo) in Eq. injection Eq as <-.
-                unfold vv_exported in Ex. rewrite h1 in Ex. unfold vexp_of in Hr. rewrite Ex in Hr. discriminate.
-             ++ unfold vexp_of in Hr. rewrite (h8 _ _ _ Ev Eo) in Hr. cbn in Hr. discriminate.
-          -- rewrite Erq, Erp in Gv. cbn in Gv. discriminate.
-        * rewrite (res_use_other _ _ _ _ p Hu1) by exact Hp. auto.
-      + apply (vis_use _ _ _ _ p q Hu0 Hu1); [exact h9|]. intros n a Hn Hf.
-        destruct (G n (nm_vn _ Hn)) as [Gv _]. apply eff_some in Hf. destruct Hf as [Hf1 Hf2].
-        rewrite Hf1 in Gv. unfold s_vexp in Gv. unfold vexp_of in Hf2. rewrite Hf2 in Gv. cbn in Gv.
-        apply opt_addr_eqb_eq in Gv. exact Gv.
-    - pose proof HF as [h1 h2 h3 h4 h5 h6 h7 h8]. constructor; cbn; auto.
-      + intros p' n. destruct (N.eqb_spec p' p) as [->|Hp].
-        * rewrite (res_use_self _ _ _ _ p q Hu0).
-          destruct (mem n NMl) eqn:Hn.
-          -- apply use_entry; auto.
-             ++ intros a. apply (fexp_eq m s HF).
-             ++ exact (proj2 (G n Hn)).
-          -- pose proof (resf_nonm m s HF) as Hx.
-             rewrite (h3 q n), (h3 p n). change (res (own_f s) (fexp_of (s_fheap s)) (s_uses s)) with (resolve_f s). rewrite !(Hx _ _ Hn).
-             unfold eff. destruct (own_f s q n) as [a|] eqn:Eo; [|reflexivity].
-             destruct (h4 _ _ _ Eo) as (_ & H2 & _). rewrite (nm_fn _ H2) in Hn. discriminate.
-        * rewrite (res_use_other _ _ _ _ p Hu1) by exact Hp. auto.
-      + apply (vis_use _ _ _ _ p q Hu0 Hu1); [exact h6|]. intros n a _ Hf.
-        apply eff_some in Hf. destruct Hf as [Hf1 Hf2].
-        destruct (h4 _ _ _ Hf1) as (_ & H2 & _).
-        destruct (G n (nm_fn _ H2)) as [_ Gf].
-        rewrite Hf1 in Gf. unfold s_fexp in Gf. unfold fexp_of in Hf2. rewrite Hf2 in Gf. cbn in Gf.
-        apply opt_addr_eqb_eq in Gf. exact Gf.
+      + intros p'. destruct (N.eq_dec p' p) as [->|Hp]; [|rewrite Hu1 by exact Hp; apply (c_nd_uses _ _ HC)].
+        rewrite Hu0. apply NoDup_app_single; [apply (c_nd_uses _ _ HC)|]. apply mem_nIn, Em.
+      + intros p'. unfold upd. destruct (N.eqb_spec p' q) as [->|Hq]; [|apply (c_nd_users _ _ HC)].
+        apply NoDup_app_single; [apply (c_nd_users _ _ HC)|]. apply mem_nIn. rewrite (c_users _ _ HC). exact Em.
+    - pose proof HV as [h1 h2 h3 h4 h5]. constructor; cbn; auto.
+      intros p' n. destruct (N.eqb_spec p' p) as [->|Hp].
+      + rewrite (res_use_self _ _ _ _ p q Hu0).
+        destruct (mem n NM) eqn:Hn.
+        * apply use_entry; auto; [intros a; apply (vexp_eq m s HV)|].
+          specialize (G2 n (proj1 (mem_In _ _) Hn)). apply andb_true_iff in G2. exact (proj1 G2).
+        * apply use_entry_nonm; auto. intros r. destruct (own_v s r n) as [a|] eqn:E; [|reflexivity].
+          destruct (h4 _ _ _ E) as (_ & H2 & _). congruence.
+      + rewrite (res_use_other _ _ _ _ p Hu1) by exact Hp. auto.
+    - pose proof HF as [h1 h2 h3 h4 h5 h6 h7]. constructor; cbn; auto.
+      intros p' n. destruct (N.eqb_spec p' p) as [->|Hp].
+      + rewrite (res_use_self _ _ _ _ p q Hu0).
+        destruct (mem n NM) eqn:Hn.
+        * apply use_entry; auto; [intros a; apply (fexp_eq m s HF)|].
+          specialize (G2 n (proj1 (mem_In _ _) Hn)). apply andb_true_iff in G2. exact (proj2 G2).
+        * apply use_entry_nonm; auto. intros r. destruct (own_f s r n) as [a|] eqn:E; [|reflexivity].
+          destruct (h4 _ _ _ E) as (_ & H2 & _). congruence.
+      + rewrite (res_use_other _ _ _ _ p Hu1) by exact Hp. auto.
   Qed.
 
-  Lemma step_inpkg m s p : Inv m s -> Inv (step m (OInPkg p)) (sstep s (OInPkg p)).
+  (* ---- unuse-package ---- *)
+  Lemma unuse_entry (own T : tbl) exp (uses : pkgid -> list pkgid) us' p n (mexp mhome : addr -> bool) :
+    (forall r, T r n = res own exp uses r n) ->
+    (forall a, mexp a = exp a) ->
+    (forall a, res own exp uses p n = Some a -> (mhome a = true <-> own p n = Some a)) ->
+    (own p n = None -> inherited (res own exp uses) exp us' n = inherited own exp us' n) ->
+    match T p n with Some a => if mhome a then Some a else inherited T mexp us' n | None => inherited T mexp us' n end
+    = match own p n with Some a => Some a | None => inherited own exp us' n end.
   Proof.
-    intros (HC & HV & HF). split; [|split]; [|exact HV|exact HF].
-    destruct HC. constructor; cbn; auto.
+    intros HT Hm Hh G.
+    assert (Hi : inherited T mexp us' n = inherited (res own exp uses) exp us' n).
+    { apply inherited_ext. intros r _. unfold eff. rewrite HT. destruct (res own exp uses r n); [rewrite Hm|]; reflexivity. }
+    rewrite HT, Hi. destruct (res own exp uses p n) as [a|] eqn:Er.
+    - destruct (mhome a) eqn:Eh.
+      + apply (Hh a eq_refl) in Eh. rewrite Eh. reflexivity.
+      + destruct (own p n) as [b|] eqn:Eo.
+        * rewrite (res_own _ _ _ _ _ _ Eo) in Er. injection Er as ->.
+          assert (mhome a = true) by (apply (Hh a eq_refl); reflexivity). congruence.
+        * apply G. reflexivity.
+    - apply res_none_inv in Er. destruct Er as [Eo _]. rewrite Eo. apply G, Eo.
   Qed.
 
-  Lemma upd2_cases {A} (f : N -> N -> A) k1 k2 v a b :
-    (a = k1 /\ b = k2 /\ upd2 f k1 k2 v a b = v) \/ (~ (a = k1 /\ b = k2) /\ upd2 f k1 k2 v a b = f a b).
+  Lemma step_unuse m s q p :
+    Inv m s -> guard_step P NM s (OUnuse q p) = true -> Inv (step m (OUnuse q p)) (sstep s (OUnuse q p)).
   Proof.
-    unfold upd2. destruct (N.eqb_spec a k1), (N.eqb_spec b k2); cbn; auto; right; split; auto; tauto.
-  Qed.
-  Lemma res_exp_ext (own : tbl) exp exp' us p n : (forall a, exp a = exp' a) -> res own exp us p n = res own exp' us p n.
-  Proof. intros H. apply res_ext; auto. intros q _. unfold eff. destruct (own q n); [rewrite H|]; reflexivity. Qed.
-  Lemma vis_exp_ext good (own : tbl) exp exp' us : (forall a, exp a = exp' a) -> vis good own exp us -> vis good own exp' us.
-  Proof.
-    intros H V u q n a Hg Hq Hf. rewrite <- (res_exp_ext own exp exp' us u n H). apply (V u q n a Hg Hq).
-    unfold eff in *. destruct (own q n); [rewrite H|]; exact Hf.
+    intros HI G. pose proof HI as (HC & HV & HF). cbn [guard_step] in G.
+    cbn [step sstep]. unfold unuse. destruct (N.eqb_spec p q) as [Epq|Npq]; [exact HI|].
+    cbn [orb] in G. rewrite forallb_forall in G. rewrite (c_uses _ _ HC).
+    set (us' := remove1 q (s_uses s p)) in *.
+    assert (Hu0 : upd (s_uses s) p us' p = us') by apply upd_same.
+    assert (Hu1 : forall u, u <> p -> upd (s_uses s) p us' u = s_uses s u) by (intros; apply upd_other; assumption).
+    assert (Hres_p : forall (own : tbl) exp n, res own exp (upd (s_uses s) p us') p n =
+                       match own p n with Some a => Some a | None => inherited own exp us' n end)
+      by (intros; unfold res; rewrite Hu0; reflexivity).
+    assert (Hres_o : forall (own : tbl) exp u n, u <> p -> res own exp (upd (s_uses s) p us') u n = res own exp (s_uses s) u n)
+      by (intros own exp u n Hu; unfold res; rewrite (Hu1 u Hu); reflexivity).
+    split; [|split].
+    - constructor; cbn.
+      + intros p'. unfold upd. rewrite !(c_uses _ _ HC). reflexivity.
+      + intros u p'. unfold upd. destruct (N.eqb_spec p' q) as [->|Hq], (N.eqb_spec u p) as [->|Hp].
+        * rewrite (mem_remove1_same _ _ (c_nd_users _ _ HC q)). unfold us'.
+          rewrite (mem_remove1_same _ _ (c_nd_uses _ _ HC p)). reflexivity.
+        * rewrite (mem_remove1_other _ _ _ Hp). apply (c_users _ _ HC).
+        * unfold us'. rewrite (mem_remove1_other _ _ _ Hq). apply (c_users _ _ HC).
+        * apply (c_users _ _ HC).
+      + apply (c_cur _ _ HC).
+      + intros p' q' Hi. destruct (N.eq_dec p' p) as [->|Hp].
+        * rewrite Hu0 in Hi. apply remove1_in in Hi. exact (c_wf _ _ HC _ _ Hi).
+        * rewrite Hu1 in Hi by exact Hp. exact (c_wf _ _ HC _ _ Hi).
+      + intros p'. destruct (N.eq_dec p' p) as [->|Hp]; [|rewrite Hu1 by exact Hp; apply (c_nd_uses _ _ HC)].
+        rewrite Hu0. apply (remove1_nodup q _ (c_nd_uses _ _ HC p)).
+      + intros p'. unfold upd. destruct (N.eqb_spec p' q) as [->|Hq]; [|apply (c_nd_users _ _ HC)].
+        apply (remove1_nodup p _ (c_nd_users _ _ HC q)).
+    - pose proof HV as [h1 h2 h3 h4 h5]. constructor; cbn; auto.
+      intros p' n. destruct (N.eqb_spec p' p) as [->|Hp]; [|rewrite Hres_o by exact Hp; auto].
+      rewrite Hres_p. apply unuse_entry with (uses := s_uses s); auto.
+      + intros a. apply (vexp_eq m s HV).
+      + intros a Ha. apply (home_v m s HV). exact Ha.
+      + intros Eo. destruct (mem n NM) eqn:Hn.
+        * specialize (G n (proj1 (mem_In _ _) Hn)). apply andb_true_iff in G. destruct G as [G _].
+          rewrite Eo in G. cbn in G. apply opt_addr_eqb_eq in G. exact G.
+        * rewrite !inherited_all_none; auto.
+          -- intros r. destruct (own_v s r n) as [a|] eqn:E; [|reflexivity]. destruct (h4 _ _ _ E) as (_ & H2 & _). congruence.
+          -- intros r. apply (resv_nonm m s HV). exact Hn.
+    - pose proof HF as [h1 h2 h3 h4 h5 h6 h7]. constructor; cbn; auto.
+      intros p' n. destruct (N.eqb_spec p' p) as [->|Hp]; [|rewrite Hres_o by exact Hp; auto].
+      rewrite Hres_p. apply unuse_entry with (uses := s_uses s); auto.
+      + intros a. apply (fexp_eq m s HF).
+      + intros a Ha. apply (home_f m s HF). exact Ha.
+      + intros Eo. destruct (mem n NM) eqn:Hn.
+        * specialize (G n (proj1 (mem_In _ _) Hn)). apply andb_true_iff in G. destruct G as [_ G].
+          rewrite Eo in G. cbn in G. apply opt_addr_eqb_eq in G. exact G.
+        * rewrite !inherited_all_none; auto.
+          -- intros r. destruct (own_f s r n) as [a|] eqn:E; [|reflexivity]. destruct (h4 _ _ _ E) as (_ & H2 & _). congruence.
+          -- intros r. apply (resf_nonm m s HF). exact Hn.
   Qed.
 
-  Lemma resv_cell m s p n a :
-    RV m s -> mem n VN = true -> resolve_v s p n = Some a ->
-    exists q vv, own_v s q n = Some a /\ s_vheap s a = Some vv /\ vv_val vv <> None /\ vv_pkg vv = Some q.
-  Proof.
-    intros HV Hn Hr. assert (exists q, own_v s q n = Some a) as [q Hq].
-    { apply res_some_inv in Hr. destruct Hr as [Hr|(_ & q & _ & Hf)]; [eauto|]. apply eff_some in Hf. destruct Hf; eauto. }
-    destruct (v_vn _ _ _ _ _ _ _ HV _ _ _ Hn Hq) as (vv & H1 & H2 & H3). eauto 8.
-  Qed.
-
+  (* ---- setq / defvar ---- *)
   Lemma step_setq_core m s n v :
-    Inv m s -> mem n VN = true ->
-    match resolve_v s (s_cur s) n with
-    | Some a => forallb (fun u => opt_addr_eqb (resolve_v s u n) (Some a)) (s_users P s (s_cur s))
-    | None => true
-    end = true ->
-    Inv (set_var m (cur m) n v) (s_setq s n v).
+    Inv m s -> mem n NM = true -> Inv (set_var m (cur m) n v) (s_setq s n v).
   Proof.
-    intros HI Hn G. pose proof HI as (HC & HV & HF). pose proof HV as [h1 h2 h3 h4 h5 h6 h7 h8 h9].
-    unfold set_var, s_setq. rewrite (c_cur _ _ HC), (h3 _ _ Hn). change (res (own_v s) (vexp_of (s_vheap s)) (s_uses s)) with (resolve_v s).
+    intros HI Hn. pose proof HI as (HC & HV & HF). pose proof HV as [h1 h2 h3 h4 h5].
+    unfold set_var, s_setq. rewrite (c_cur _ _ HC), h3. change (res (own_v s) (vexp_of (s_vheap s)) (s_uses s)) with (resolve_v s).
     destruct (resolve_v s (s_cur s) n) as [a|] eqn:Er.
-    - destruct (resv_cell m s _ _ _ HV Hn Er) as (q0 & vv & Ho & Hh & Hval & Hpk).
+    - destruct (resv_cell m s HV _ _ _ Er) as (q0 & vv & Ho & Hh & Hpk & _).
       rewrite h1, Hh. rewrite N.eqb_refl, orb_true_r. unfold set_vval. rewrite Hh.
-      rewrite forallb_forall in G.
-      assert (Gu : forall u, In (s_cur s) (s_uses s u) -> resolve_v s u n = Some a).
-      { intros u Hu. apply opt_addr_eqb_eq, G. eapply in_s_users; eassumption. }
-      assert (Hexp : forall x, vexp_of (s_vheap s) x =
-                     vexp_of (upd (s_vheap s) a (Some {| vv_pkg := vv_pkg vv; vv_val := Some v; vv_export := vv_export vv |})) x).
+      set (vv' := {| vv_pkg := vv_pkg vv; vv_val := Some v; vv_export := vv_export vv |}).
+      assert (Hexp : forall x, vexp_of (s_vheap s) x = vexp_of (upd (s_vheap s) a (Some vv')) x).
       { intros x. unfold vexp_of, upd. destruct (N.eqb_spec x a) as [->|]; [rewrite Hh|]; reflexivity. }
-      split; [|split]; [destruct HC; constructor; cbn; auto| |exact HF].
-      constructor; cbn; auto.
-      + intros x. unfold upd. rewrite h1. reflexivity.
-      + intros p' n' Hn'. rewrite <- (res_exp_ext _ _ _ _ _ _ Hexp). unfold push_users.
-        destruct (mem p' (users m (s_cur s))) eqn:Eu; cbn; [|auto]. destruct (N.eqb_spec n' n) as [->|]; [|auto].
-        apply (mem_users m s HC) in Eu. pose proof (Gu _ Eu) as Hu. rewrite (h3 _ _ Hn).
-        change (res (own_v s) (vexp_of (s_vheap s)) (s_uses s) p' n) with (resolve_v s p' n). rewrite Hu. reflexivity.
-      + intros p' n'. rewrite <- (res_exp_ext _ _ _ _ _ _ Hexp). unfold push_users.
-        destruct (mem p' (users m (s_cur s))) eqn:Eu; cbn; [|auto]. destruct (N.eqb_spec n' n) as [->|]; [|auto].
-        apply (mem_users m s HC) in Eu. pose proof (Gu _ Eu) as Hu.
-        change (res (own_v s) (vexp_of (s_vheap s)) (s_uses s) p' n) with (resolve_v s p' n). rewrite Hu. discriminate.
-      + intros p' n' x Hn' Hx. unfold upd. destruct (N.eqb_spec x a) as [->|]; [|eapply h7; eassumption].
-        destruct (h6 _ _ _ _ _ Ho Hx) as [-> ->]. eexists. split; [reflexivity|]. cbn. split; [discriminate|exact Hpk].
-      + intros p' n' x Hn' Hx. unfold upd. destruct (N.eqb_spec x a) as [->|]; [|eauto].
-        destruct (h6 _ _ _ _ _ Ho Hx) as [-> ->]. congruence.
-      + eapply vis_exp_ext; [exact Hexp|exact h9].
+      (* sharing with the users is a no-op: they resolve the name already *)
+      assert (Hpush : vv_export vv && opt_pkg_eqb (vv_pkg vv) (s_cur s) = true ->
+                      forall p' n', push_users (vars m) (users m (s_cur s)) n a p' n' = vars m p' n').
+      { intros Hc p' n'. apply andb_true_iff in Hc. destruct Hc as [He Hp]. rewrite Hpk in Hp. cbn in Hp. apply N.eqb_eq in Hp. subst q0.
+        unfold push_users. destruct (mem p' (users m (s_cur s))) eqn:Eu; cbn [andb]; [|reflexivity].
+        destruct (N.eqb_spec n' n) as [->|]; [|reflexivity].
+        apply (mem_users m s HC) in Eu. rewrite h3.
+        destruct (res (own_v s) (vexp_of (s_vheap s)) (s_uses s) p' n) as [x|] eqn:Ex; [reflexivity|].
+        exfalso. eapply res_not_none; [exact Eu| |exact Ex]. apply eff_some. split; [exact Ho|].
+        unfold vexp_of. rewrite Hh. exact He. }
+      assert (Htab : forall p' n', vars (if vv_export vv && opt_pkg_eqb (vv_pkg vv) (s_cur s)
+                       then set_vars (set_vheap m (upd (vheap m) a (Some vv')))
+                              (push_users (vars (set_vheap m (upd (vheap m) a (Some vv')))) (users m (s_cur s)) n a)
+                       else set_vheap m (upd (vheap m) a (Some vv'))) p' n' = vars m p' n').
+      { intros p' n'. destruct (vv_export vv && opt_pkg_eqb (vv_pkg vv) (s_cur s)) eqn:Ec; [|reflexivity]. cbn. apply Hpush. reflexivity. }
+      split; [|split].
+      + destruct (vv_export vv && opt_pkg_eqb (vv_pkg vv) (s_cur s)); destruct HC; constructor; cbn; auto.
+      + unfold RV. constructor.
+        * intros x. destruct (vv_export vv && opt_pkg_eqb (vv_pkg vv) (s_cur s)); cbn; unfold upd; rewrite h1; reflexivity.
+        * destruct (vv_export vv && opt_pkg_eqb (vv_pkg vv) (s_cur s)); cbn; exact h2.
+        * intros p' n'. rewrite Htab. cbn. rewrite <- (res_exp_ext _ _ _ _ _ _ Hexp). apply h3.
+        * intros p' n' x Hx. cbn in Hx |- *. destruct (h4 _ _ _ Hx) as (H1 & H2 & vv0 & H3 & H4). split; [exact H1|split; [exact H2|]].
+          unfold upd. destruct (N.eqb_spec x a) as [->|]; [|eauto].
+          eexists; split; [reflexivity|]. cbn. congruence.
+        * exact h5.
+      + destruct (vv_export vv && opt_pkg_eqb (vv_pkg vv) (s_cur s)); exact HF.
     - assert (Hnone : own_v s (s_cur s) n = None) by (apply res_none_inv in Er; tauto).
       assert (Hfresh : forall p' n', own_v s p' n' <> Some (s_vnext s)).
-      { intros p' n' H. apply h5 in H. destruct H as [H _]. exact (N.lt_irrefl _ H). }
+      { intros p' n' H. apply h4 in H. destruct H as [H _]. exact (N.lt_irrefl _ H). }
       set (cell := {| vv_pkg := Some (s_cur s); vv_val := Some v; vv_export := false |}).
       set (own' := upd2 (own_v s) (s_cur s) n (Some (s_vnext s))).
       set (sh' := upd (s_vheap s) (s_vnext s) (Some cell)).
@@ -346,619 +415,583 @@ Section Refine.
       unfold new_var. constructor; cbn; fold cell; fold own'; fold sh'.
       + intros x. unfold sh', upd. rewrite h1, h2. reflexivity.
       + rewrite h2. reflexivity.
-      + intros p' n' Hn'. rewrite h2. destruct (upd2_cases (vars m) (s_cur s) n (Some (s_vnext s)) p' n') as [(-> & -> & ->)|[Hne ->]].
-        * symmetry. apply res_own, Hown0.
-        * rewrite (res_new_private (own_v s) own' (vexp_of (s_vheap s)) _ _ _ _ _ Hfresh Hnone Hown0 Hown1 Hexp _ _ Hexp0 Hne). auto.
       + intros p' n'. rewrite h2. destruct (upd2_cases (vars m) (s_cur s) n (Some (s_vnext s)) p' n') as [(-> & -> & ->)|[Hne ->]].
-        * rewrite (res_own _ _ _ _ _ _ Hown0). discriminate.
+        * symmetry. apply res_own, Hown0.
         * rewrite (res_new_private (own_v s) own' (vexp_of (s_vheap s)) _ _ _ _ _ Hfresh Hnone Hown0 Hown1 Hexp _ _ Hexp0 Hne). auto.
       + intros p' n' x Hx. destruct (upd2_cases (own_v s) (s_cur s) n (Some (s_vnext s)) p' n') as [(-> & -> & E)|[Hne E]];
           unfold own' in Hx; rewrite E in Hx.
-        * injection Hx as <-. split; [lia|apply nm_vn, Hn].
-        * apply h5 in Hx. destruct Hx. split; [lia|assumption].
+        * injection Hx as <-. split; [lia|split; [exact Hn|]]. unfold sh'. rewrite upd_same. eexists; split; reflexivity.
+        * destruct (h4 _ _ _ Hx) as (H1 & H2 & vv0 & H3 & H4). split; [lia|split; [exact H2|]].
+          unfold sh'. rewrite upd_other; [eauto|]. intros ->. exact (Hfresh _ _ Hx).
       + eapply inj_new; eauto.
-      + intros p' n' x Hn' Hx. destruct (upd2_cases (own_v s) (s_cur s) n (Some (s_vnext s)) p' n') as [(-> & -> & E)|[Hne E]];
-          unfold own' in Hx; rewrite E in Hx.
-        * injection Hx as <-. unfold sh'. rewrite upd_same. eexists. split; [reflexivity|]. cbn. split; [discriminate|reflexivity].
-        * unfold sh'. rewrite upd_other; [eauto|]. intros ->. exact (Hfresh _ _ Hx).
-      + intros p' n' x Hn' Hx. destruct (upd2_cases (own_v s) (s_cur s) n (Some (s_vnext s)) p' n') as [(-> & -> & E)|[Hne E]];
-          unfold own' in Hx; rewrite E in Hx.
-        * congruence.
-        * unfold sh'. rewrite upd_other; [eauto|]. intros ->. exact (Hfresh _ _ Hx).
-      + eapply vis_new_private; eauto.
   Qed.
-
-  Lemma RVp_own_ext T mh mn own own' sh sn us :
-    (forall p n, own p n = own' p n) -> RVp T mh mn own sh sn us -> RVp T mh mn own' sh sn us.
-  Proof.
-    intros H [h1 h2 h3 h4 h5 h6 h7 h8 h9]. constructor; auto.
-    - intros p n Hn. rewrite <- (res_ext_own own own' _ _ _ _ H). auto.
-    - intros p n. rewrite <- (res_ext_own own own' _ _ _ _ H). auto.
-    - intros p n a. rewrite <- H. apply h5.
-    - eapply inj_ext_own; eassumption.
-    - intros p n a. rewrite <- H. apply h7.
-    - intros p n a. rewrite <- H. apply h8.
-    - eapply vis_ext_own; eassumption.
-  Qed.
-  Lemma RFp_own_ext T mh lh pl mn ln own own' sh sn us :
-    (forall p n, own p n = own' p n) -> RFp T mh lh pl mn ln own sh sn us -> RFp T mh lh pl mn ln own' sh sn us.
-  Proof.
-    intros H [h1 h2 h3 h4 h5 h6 h7 h8]. constructor; auto; [| | | |intros p n a; rewrite <- H; apply h7].
-    - intros p n. rewrite <- (res_ext_own own own' _ _ _ _ H). auto.
-    - intros p n a. rewrite <- H. apply h4.
-    - eapply inj_ext_own; eassumption.
-    - eapply vis_ext_own; eassumption.
-  Qed.
-  Lemma upd2_none_noop (f : tbl) k1 k2 : f k1 k2 = None -> forall p n, f p n = upd2 f k1 k2 None p n.
-  Proof. intros H p n. destruct (upd2_cases f k1 k2 None p n) as [(-> & -> & ->)|[_ ->]]; auto. Qed.
 
   Lemma step_setq m s n v :
-    Inv m s -> sorted_op VN FN (OSetq n v) = true -> guard_step P NMl s (OSetq n v) = true ->
-    Inv (step m (OSetq n v)) (sstep s (OSetq n v)).
-  Proof. intros HI Hs G. apply step_setq_core; assumption. Qed.
+    Inv m s -> guard_step P NM s (OSetq n v) = true -> Inv (step m (OSetq n v)) (sstep s (OSetq n v)).
+  Proof. intros HI G. apply step_setq_core; assumption. Qed.
 
   Lemma step_defvar m s n v :
-    Inv m s -> sorted_op VN FN (ODefvar n v) = true -> guard_step P NMl s (ODefvar n v) = true ->
-    Inv (step m (ODefvar n v)) (sstep s (ODefvar n v)).
+    Inv m s -> guard_step P NM s (ODefvar n v) = true -> Inv (step m (ODefvar n v)) (sstep s (ODefvar n v)).
   Proof.
-    intros HI Hs G. pose proof HI as (HC & HV & HF). cbn in Hs. cbn [step sstep]. unfold defvar, pkg_get.
-    rewrite (c_cur _ _ HC), (v_tab _ _ _ _ _ _ _ HV _ _ Hs).
-    change (res (own_v s) (vexp_of (s_vheap s)) (s_uses s)) with (resolve_v s).
+    intros HI G. pose proof HI as (HC & HV & HF). cbn [guard_step] in G. cbn [step sstep]. unfold defvar, pkg_get.
+    rewrite (c_cur _ _ HC), (vtab m s HV).
     destruct (resolve_v s (s_cur s) n) as [a|] eqn:Er.
-    - destruct (resv_cell m s _ _ _ HV Hs Er) as (q0 & vv & Ho & Hh & Hval & Hpk).
-      rewrite (v_heap _ _ _ _ _ _ _ HV), Hh, N.eqb_refl, orb_true_r. destruct (vv_val vv); [exact HI|congruence].
+    - destruct (resv_cell m s HV _ _ _ Er) as (q0 & vv & Ho & Hh & Hpk & _).
+      rewrite (v_heap _ _ _ _ _ _ _ HV), Hh, N.eqb_refl, orb_true_r. destruct (vv_val vv); [exact HI|].
+      rewrite <- (c_cur _ _ HC). apply step_setq_core; auto.
     - rewrite <- (c_cur _ _ HC). apply step_setq_core; auto.
   Qed.
 
-  Lemma step_defun m s n v :
-    Inv m s -> sorted_op VN FN (ODefun n v) = true -> guard_step P NMl s (ODefun n v) = true ->
-    Inv (step m (ODefun n v)) (sstep s (ODefun n v)).
-  Proof.
-    intros HI Hs G. pose proof HI as (HC & HV & HF). pose proof HF as [h1 h2 h3 h4 h5 h6 h7 h8].
-    cbn in Hs. cbn [guard_step] in G. cbn [step sstep]. unfold defun. cbv zeta.
-    rewrite (c_cur _ _ HC), (h3 _ _). change (res (own_f s) (fexp_of (s_fheap s)) (s_uses s)) with (resolve_f s).
-    set (c := s_cur s) in *. set (l := lnext m).
-    set (lh := match plam m c n with Some x => upd (upd (lheap m) l (Some v)) x (Some v) | None => upd (lheap m) l (Some v) end).
-    set (pl := match plam m c n with Some _ => plam m | None => upd2 (plam m) c n (Some l) end).
-    assert (Hl_lh : lh l = Some v).
-    { unfold lh. destruct (plam m c n) as [x|] eqn:Ex; [|apply upd_same].
-      rewrite upd_other; [apply upd_same|]. intros E. apply h8 in Ex. fold l in Ex. rewrite E in Ex. exact (N.lt_irrefl _ Ex). }
-    assert (Hlh_other : forall y, y <> l -> (forall x, plam m c n = Some x -> y <> x) -> lh y = lheap m y).
-    { intros y Hy Hx. unfold lh. destruct (plam m c n) as [x|] eqn:Ex.
-      - rewrite upd_other by (apply Hx; reflexivity). apply upd_other, Hy.
-      - apply upd_other, Hy. }
-    assert (Hpl_l : forall p' n', pl p' n' = Some l -> p' = c /\ n' = n).
-    { intros p' n'. unfold pl. destruct (plam m c n) as [x|] eqn:Ex.
-      - intros E. apply h8 in E. exfalso. exact (N.lt_irrefl _ E).
-      - destruct (upd2_cases (plam m) c n (Some l) p' n') as [(-> & -> & _)|[_ ->]]; [auto|].
-        intros E. apply h8 in E. exfalso. exact (N.lt_irrefl _ E). }
-    assert (Hpl_other : forall p' n' y, y <> l -> pl p' n' = Some y -> plam m p' n' = Some y).
-    { intros p' n' y Hy. unfold pl. destruct (plam m c n) as [x|] eqn:Ex; [auto|].
-      destruct (upd2_cases (plam m) c n (Some l) p' n') as [(-> & -> & ->)|[_ ->]]; [congruence|auto]. }
-    assert (Hpl_lt : forall p' n' x, pl p' n' = Some x -> x < l + 1).
-    { intros p' n' x E. destruct (N.eq_dec x l) as [->|Hx]; [lia|]. apply Hpl_other in E; [|exact Hx]. apply h8 in E. fold l in E. lia. }
-    assert (Hlive : forall p' n' b, own_f s p' n' = Some b -> ~ (p' = c /\ n' = n) ->
-              exists fi sf, fheap m b = Some fi /\ s_fheap s b = Some sf /\ lh (fi_lam fi) = Some (sf_val sf) /\ fi_lam fi < l + 1 /\
-                            (forall p'' n'', pl p'' n'' = Some (fi_lam fi) -> p'' = p' /\ n'' = n')).
-    { intros p' n' b Hb Hne. destruct (h7 _ _ _ Hb) as (fi & sf & H1 & H2 & H3 & H4 & H5). exists fi, sf.
-      assert (Hy : fi_lam fi <> l) by (fold l in H4; lia).
-      split; [exact H1|split; [exact H2|split; [|split; [fold l in H4; lia|]]]].
-      - rewrite Hlh_other; [exact H3|exact Hy|]. intros x Ex E. apply Hne. destruct (H5 c n) as [-> ->]; [congruence|auto].
-      - intros p'' n'' E. apply H5. eapply Hpl_other; eassumption. }
-    destruct (resolve_f s c n) as [a|] eqn:Er.
-    - apply opt_addr_eqb_eq in G. destruct (h4 _ _ _ G) as (Hlt & _ & sf0 & Hh0 & Hpk).
-      destruct (h7 _ _ _ G) as (fi & sf & Hfi & Hsf & _). rewrite Hh0 in Hsf. injection Hsf as <-.
-      rewrite Hfi, Hh0.
-      destruct (fheap_of_s m s HF a sf0 Hh0) as (fi' & Hfi' & _ & Hex). rewrite Hfi in Hfi'. injection Hfi' as <-.
-      assert (Hexp : forall x, fexp_of (s_fheap s) x =
-                fexp_of (upd (s_fheap s) a (Some {| sf_pkg := sf_pkg sf0; sf_val := v; sf_export := sf_export sf0 |})) x).
-      { intros x. unfold fexp_of, upd. destruct (N.eqb_spec x a) as [->|]; [rewrite Hh0|]; reflexivity. }
-      split; [|split]; [destruct HC; constructor; cbn; auto|exact HV|].
-      unfold RF. cbn. fold l. constructor; auto.
-      + intros x. unfold upd. destruct (N.eqb_spec x a) as [->|]; [|apply h1]. cbn. auto.
-      + intros p' n'. rewrite <- (res_exp_ext _ _ _ _ _ _ Hexp). auto.
-      + intros p' n' x Hx. destruct (h4 _ _ _ Hx) as (H1 & H2 & fi' & H3 & H4). split; [auto|split;[auto|]].
-        unfold upd. destruct (N.eqb_spec x a) as [->|]; [|eauto]. eexists; split; [reflexivity|]. cbn. congruence.
-      + eapply vis_exp_ext; [exact Hexp|exact h6].
-      + intros p' n' b Hb. destruct (N.eq_dec b a) as [->|Hba].
-        * destruct (h5 _ _ _ _ _ Hb G) as [-> ->]. rewrite !upd_same. eexists; eexists.
-          split; [reflexivity|split; [reflexivity|]]. cbn. split; [exact Hl_lh|split; [lia|exact Hpl_l]].
-        * rewrite !upd_other by exact Hba. apply Hlive; [exact Hb|]. intros [-> ->]. congruence.
-    - apply opt_addr_eqb_eq in G. rewrite (v_weak _ _ _ _ _ _ _ HV _ _ G). cbn iota.
-      assert (Hnone : own_f s c n = None) by (apply res_none_inv in Er; tauto).
-      assert (Hfresh : forall p' n', own_f s p' n' <> Some (s_fnext s)).
-      { intros p' n' H. apply h4 in H. destruct H as [H _]. exact (N.lt_irrefl _ H). }
-      set (cell := {| sf_pkg := c; sf_val := v; sf_export := false |}).
-      set (own' := upd2 (own_f s) c n (Some (s_fnext s))).
-      set (sh' := upd (s_fheap s) (s_fnext s) (Some cell)).
-      assert (Hown0 : own' c n = Some (s_fnext s)) by apply upd2_same.
-      assert (Hown1 : forall p' n', ~ (p' = c /\ n' = n) -> own' p' n' = own_f s p' n') by (intros; apply upd2_other; assumption).
-      assert (Hexp : forall x, x <> s_fnext s -> fexp_of sh' x = fexp_of (s_fheap s) x).
-      { intros x Hx. unfold fexp_of, sh'. rewrite upd_other by exact Hx. reflexivity. }
-      assert (Hexp0 : fexp_of sh' (s_fnext s) = false) by (unfold fexp_of, sh'; rewrite upd_same; reflexivity).
-      split; [|split]; [destruct HC; constructor; cbn; auto|exact HV|].
-      unfold RF. cbn. fold l. fold cell; fold own'; fold sh'. constructor.
-      + intros x. rewrite h2. unfold sh', upd. destruct (N.eqb_spec x (s_fnext s)) as [->|]; [|apply h1]. cbn. auto.
-      + rewrite h2. reflexivity.
-      + intros p' n'. rewrite h2. destruct (upd2_cases (funcs m) c n (Some (s_fnext s)) p' n') as [(-> & -> & ->)|[Hne ->]].
-        * symmetry. apply res_own, Hown0.
-        * rewrite (res_new_private (own_f s) own' (fexp_of (s_fheap s)) _ _ _ _ _ Hfresh Hnone Hown0 Hown1 Hexp _ _ Hexp0 Hne). auto.
-      + intros p' n' x Hx. destruct (upd2_cases (own_f s) c n (Some (s_fnext s)) p' n') as [(-> & -> & E)|[Hne E]];
-          unfold own' in Hx; rewrite E in Hx.
-        * injection Hx as <-. split; [lia|split; [exact Hs|]]. unfold sh'. rewrite upd_same. eexists; split; reflexivity.
-        * destruct (h4 _ _ _ Hx) as (H1 & H2 & fi' & H3 & H4). split; [lia|split; [exact H2|]].
-          unfold sh'. rewrite upd_other; [eauto|]. intros ->. exact (Hfresh _ _ Hx).
-      + eapply inj_new; eauto.
-      + eapply vis_new_private; eauto.
-      + intros p' n' b Hb. destruct (upd2_cases (own_f s) c n (Some (s_fnext s)) p' n') as [(-> & -> & E)|[Hne E]];
-          unfold own' in Hb; rewrite E in Hb.
-        * injection Hb as <-. rewrite h2. unfold sh'. rewrite !upd_same. eexists; eexists.
-          split; [reflexivity|split; [reflexivity|]]. cbn. split; [exact Hl_lh|split; [lia|exact Hpl_l]].
-        * assert (Hbn : b <> s_fnext s) by (intros ->; exact (Hfresh _ _ Hb)).
-          rewrite h2. unfold sh'. rewrite !upd_other by exact Hbn. apply Hlive; assumption.
-      + exact Hpl_lt.
-  Qed.
-
-  Lemma step_fmakunbound m s n :
-    Inv m s -> sorted_op VN FN (OFmakunbound n) = true -> guard_step P NMl s (OFmakunbound n) = true ->
-    Inv (step m (OFmakunbound n)) (sstep s (OFmakunbound n)).
-  Proof.
-    intros HI Hs G. pose proof HI as (HC & HV & HF). pose proof HF as [h1 h2 h3 h4 h5 h6 h7 h8].
-    cbn in Hs. cbn [guard_step] in G. cbn [step sstep]. unfold undefine. rewrite (c_cur _ _ HC).
-    split; [|split]; [destruct HC; constructor; cbn; auto|exact HV|].
-    destruct (resolve_f s (s_cur s) n) as [a|] eqn:Er.
-    - apply andb_true_iff in G. destruct G as [G1 G2]. apply opt_addr_eqb_eq in G1.
-      set (own' := upd2 (own_f s) (s_cur s) n None).
-      assert (Hown0 : own' (s_cur s) n = None) by apply upd2_same.
-      assert (Hown1 : forall p' n', ~ (p' = s_cur s /\ n' = n) -> own' p' n' = own_f s p' n') by (intros; apply upd2_other; assumption).
-      assert (Hgood : (fun _ : name => true) n = true) by reflexivity.
-      pose proof (noself_uses m s HC) as Hns.
-      unfold RF. cbn. fold own'. constructor; auto.
-      + intros p' n'. destruct (upd2_cases (funcs m) (s_cur s) n None p' n') as [(-> & -> & ->)|[Hne ->]].
-        * symmetry. eapply res_rm_self; eauto.
-        * rewrite h3. destruct (N.eq_dec n' n) as [->|Hn]; [|symmetry; eapply res_rm_name; eauto].
-          assert (Hp : p' <> s_cur s) by tauto.
-          destruct (res (own_f s) (fexp_of (s_fheap s)) (s_uses s) p' n) as [b|] eqn:Eb.
-          -- symmetry. eapply res_rm_other with (a0 := a); eauto. intros ->.
-             apply res_some_inv in Eb. destruct Eb as [Eb|(_ & q & Hq & Hf)].
-             ++ apply Hp. eapply proj1, h5; eassumption.
-             ++ apply eff_some in Hf. destruct Hf as [Hf1 Hf2].
-                destruct (h5 _ _ _ _ _ Hf1 G1) as [-> _].
-                unfold s_fexp in G2. unfold fexp_of in Hf2. rewrite Hf2 in G2. cbn in G2.
-                destruct (s_users P s (s_cur s)) eqn:Eu; [|discriminate].
-                exact (s_users_nil m s HC _ _ Eu Hq).
-          -- symmetry. eapply res_rm_none; eauto.
-      + intros p' n' x Hx. destruct (upd2_cases (own_f s) (s_cur s) n None p' n') as [(-> & -> & E)|[Hne E]];
-          unfold own' in Hx; rewrite E in Hx; [discriminate|auto].
-      + eapply inj_rm; eauto.
-      + eapply vis_rm; eauto.
-      + intros p' n' x Hx. destruct (upd2_cases (own_f s) (s_cur s) n None p' n') as [(-> & -> & E)|[Hne E]];
-          unfold own' in Hx; rewrite E in Hx; [discriminate|auto].
-    - assert (Hnone : own_f s (s_cur s) n = None) by (apply res_none_inv in Er; tauto).
-      unfold RF. cbn. eapply RFp_own_ext; [apply upd2_none_noop, Hnone|].
-      constructor; auto. intros p' n'. destruct (upd2_cases (funcs m) (s_cur s) n None p' n') as [(-> & -> & ->)|[Hne ->]]; [|auto].
-      symmetry. exact Er.
-  Qed.
-
-  Lemma RVp_intro (T : tbl) mh mn (own : tbl) sh sn us :
-    (forall a, mh a = sh a) -> mn = sn ->
-    (forall p n, mem n VN = true -> T p n = res own (vexp_of sh) us p n) ->
-    (forall p n, mem n VN = false -> res own (vexp_of sh) us p n = None -> T p n = None) ->
-    (forall p n a, own p n = Some a -> a < sn /\ mem n NMl = true) ->
-    inj own ->
-    (forall p n a, mem n VN = true -> own p n = Some a ->
-       exists vv, sh a = Some vv /\ vv_val vv <> None /\ vv_pkg vv = Some p) ->
-    (forall p n a, mem n VN = false -> own p n = Some a -> sh a = Some junk) ->
-    vis (fun n => mem n VN) own (vexp_of sh) us ->
-    RVp T mh mn own sh sn us.
-  Proof.
-    intros h1 h2 h3 h4 h5 h6 h7 h8 h9. constructor; auto.
-    intros p n Hr. destruct (mem n VN) eqn:Hn; [rewrite (h3 _ _ Hn); exact Hr|auto].
-  Qed.
-
-  Lemma step_makunbound m s n :
-    Inv m s -> sorted_op VN FN (OMakunbound n) = true -> guard_step P NMl s (OMakunbound n) = true ->
-    Inv (step m (OMakunbound n)) (sstep s (OMakunbound n)).
-  Proof.
-    intros HI Hs G. pose proof HI as (HC & HV & HF). pose proof HV as [h1 h2 h3 h4 h5 h6 h7 h8 h9].
-    cbn in Hs. cbn [guard_step] in G. cbn [step sstep]. unfold remove_var.
-    rewrite (c_cur _ _ HC), (h3 _ _ Hs). change (res (own_v s) (vexp_of (s_vheap s)) (s_uses s)) with (resolve_v s).
-    destruct (resolve_v s (s_cur s) n) as [a|] eqn:Er.
-    - apply andb_true_iff in G. destruct G as [G1 _]. apply opt_addr_eqb_eq in G1.
-      set (own' := upd2 (own_v s) (s_cur s) n None).
-      assert (Hown0 : own' (s_cur s) n = None) by apply upd2_same.
-      assert (Hown1 : forall p' n', ~ (p' = s_cur s /\ n' = n) -> own' p' n' = own_v s p' n') by (intros; apply upd2_other; assumption).
-      pose proof (noself_uses m s HC) as Hns.
-      split; [|split]; [destruct HC; constructor; cbn; auto| |exact HF].
-      unfold RV. cbn. fold own'. apply RVp_intro; auto.
-      + intros p' n' Hn'. destruct (N.eqb_spec n' n) as [->|Hn].
-        * destruct (N.eqb_spec p' (s_cur s)) as [->|Hp].
-          -- symmetry. eapply res_rm_self with (a0 := a) (good := fun n => mem n VN); eauto.
-          -- destruct (mem p' (users m (s_cur s))) eqn:Eu.
-             ++ rewrite (h3 _ _ Hs). destruct (res (own_v s) (vexp_of (s_vheap s)) (s_uses s) p' n) as [x|] eqn:Ex.
-                ** destruct (resv_cell m s p' n x HV Hs Ex) as (q' & xv & Hox & Hhx & _ & Hpx).
-                   rewrite h1, Hhx, Hpx. destruct (N.eqb_spec q' (s_cur s)) as [->|Hq'].
-                   --- assert (x = a) by congruence. subst x. symmetry.
-                       eapply res_rm_a0 with (a0 := a) (good := fun n => mem n VN); eauto.
-                   --- symmetry. eapply res_rm_other with (a0 := a) (good := fun n => mem n VN); eauto.
-                       intros ->. apply Hq'. eapply proj1, h6; eassumption.
-                ** symmetry. eapply res_rm_none; eauto.
-             ++ rewrite (h3 _ _ Hs). symmetry. eapply res_rm_nonuser; eauto.
-                intros Hi. apply (mem_users m s HC) in Hi. congruence.
-        * rewrite (h3 _ _ Hn'). symmetry. eapply res_rm_name; eauto.
-      + intros p' n' Hn' Hr. assert (Hn : n' <> n) by (intros ->; congruence).
-        destruct (N.eqb_spec n' n) as [|_]; [contradiction|]. apply h4.
-        rewrite <- Hr. symmetry. eapply res_rm_name; eauto.
-      + intros p' n' x Hx. destruct (upd2_cases (own_v s) (s_cur s) n None p' n') as [(-> & -> & E)|[Hne E]];
-          unfold own' in Hx; rewrite E in Hx; [discriminate|eauto].
-      + eapply inj_rm; eauto.
-      + intros p' n' x Hn' Hx. destruct (upd2_cases (own_v s) (s_cur s) n None p' n') as [(-> & -> & E)|[Hne E]];
-          unfold own' in Hx; rewrite E in Hx; [discriminate|eauto].
-      + intros p' n' x Hn' Hx. destruct (upd2_cases (own_v s) (s_cur s) n None p' n') as [(-> & -> & E)|[Hne E]];
-          unfold own' in Hx; rewrite E in Hx; [discriminate|eauto].
-      + eapply vis_rm with (a0 := a); eauto.
-    - assert (Hnone : own_v s (s_cur s) n = None) by (apply res_none_inv in Er; tauto).
-      split; [|split]; [destruct HC; constructor; cbn; auto| |exact HF].
-      unfold RV. cbn. eapply RVp_own_ext; [apply upd2_none_noop, Hnone|exact HV].
-  Qed.
-
   (* ---- export: function part then variable part ---- *)
-  Definition export_f (m : state) (p : pkgid) (n : name) : state :=
-    match funcs m p n with
-    | Some a => match fheap m a with
-                | Some fi =>
-                    let s' := set_fheap m (upd (fheap m) a (Some {| fi_pkg := fi_pkg fi; fi_lam := fi_lam fi; fi_export := true |})) in
-                    set_funcs s' (push_users (funcs s') (users m p) n a)
-                | None => m end
-    | None => m end.
-  Definition export_v (s1 : state) (us : list pkgid) (obj : pkgid) (n : name) : state :=
-    match vars s1 obj n with
-    | Some a => match vheap s1 a with
-                | Some vv =>
-                    let s' := set_vheap s1 (upd (vheap s1) a (Some {| vv_pkg := vv_pkg vv; vv_val := vv_val vv; vv_export := true |})) in
-                    set_vars s' (push_users (vars s') us n a)
-                | None => s1 end
-    | None =>
-        let a := vnext s1 in
-        {| vars := upd2 (vars s1) obj n (Some a); funcs := funcs s1;
-           vheap := upd (vheap s1) a (Some {| vv_pkg := None; vv_val := None; vv_export := true |});
-           fheap := fheap s1; vnext := a + 1; fnext := fnext s1; uses := uses s1; users := users s1; cur := cur s1;
-           lheap := lheap s1; lnext := lnext s1; plam := plam s1 |}
-    end.
-  Lemma export_split m p n : export m p n = export_v (export_f m p n) (users m p) p n.
+  Lemma shared_entry a (r : option addr) : match r with Some x => Some x | None => Some a end = shared a r.
   Proof. reflexivity. Qed.
-  Definition sexport_f (s : sstate) (p : pkgid) (n : name) : sstate :=
-    match own_f s p n with Some a => set_fexp s a true | None => s end.
-  Definition sexport_v (s1 : sstate) (p : pkgid) (n : name) : sstate :=
-    match own_v s1 p n with
-    | Some a => set_vexp s1 a true
-    | None => new_var s1 p n {| vv_pkg := None; vv_val := None; vv_export := true |}
-    end.
-  Lemma sexport_split s p n : sstep s (OExport n p) = sexport_v (sexport_f s p n) p n.
-  Proof. reflexivity. Qed.
-
-  Lemma users_clause (own : tbl) exp us (l : list pkgid) p n a :
-    (forall u, In p (us u) -> In u l) ->
-    forallb (fun u => opt_addr_eqb (res own exp us u n) None || opt_addr_eqb (res own exp us u n) (Some a)) l = true ->
-    forall u, In p (us u) -> res own exp us u n = None \/ res own exp us u n = Some a.
-  Proof.
-    intros Hl G u Hu. rewrite forallb_forall in G. specialize (G u (Hl u Hu)). apply orb_true_iff in G.
-    destruct G as [G|G]; apply opt_addr_eqb_eq in G; auto.
-  Qed.
 
   Lemma export_f_inv m s p n :
     Inv m s -> (own_f s p n = None -> resolve_f s p n = None) ->
     match own_f s p n with
-    | Some a => forallb (fun u => opt_addr_eqb (resolve_f s u n) None || opt_addr_eqb (resolve_f s u n) (Some a)) (s_users P s p)
+    | Some a => forallb (fun u => opt_addr_eqb (resolve_f (sexport_f s p n) u n) (shared a (resolve_f s u n))) (s_users P s p)
     | None => true end = true ->
     Inv (export_f m p n) (sexport_f s p n).
   Proof.
-    intros HI Hnone G. pose proof HI as (HC & HV & HF). pose proof HF as [h1 h2 h3 h4 h5 h6 h7 h8].
-    unfold export_f, sexport_f. rewrite h3. change (res (own_f s) (fexp_of (s_fheap s)) (s_uses s)) with (resolve_f s).
+    intros HI Hnone G. pose proof HI as (HC & HV & HF). pose proof HF as [h1 h2 h3 h4 h5 h6 h7].
+    unfold export_f. rewrite h3. change (res (own_f s) (fexp_of (s_fheap s)) (s_uses s)) with (resolve_f s).
+    unfold sexport_f in *.
     destruct (own_f s p n) as [a0|] eqn:Eo; [|rewrite (Hnone eq_refl); exact HI].
     rewrite (resolve_f_own _ _ _ _ Eo). destruct (h4 _ _ _ Eo) as (Hlt & Hfn & fi & Hh & Hpk).
-    destruct (fheap_of_s m s HF a0 fi Hh) as (fim & Hm & Hmp & Hme). rewrite Hm. unfold set_fexp. rewrite Hh.
-    set (fi' := {| sf_pkg := sf_pkg fi; sf_val := sf_val fi; sf_export := true |}).
-    set (sh' := upd (s_fheap s) a0 (Some fi')).
+    destruct (fheap_of_s m s HF a0 fi Hh) as (fim & Hm & Hmp & Hme). rewrite Hm. unfold set_fexp in *. rewrite Hh in *.
+    set (fi' := {| sf_pkg := sf_pkg fi; sf_val := sf_val fi; sf_export := true |}) in *.
+    set (sh' := upd (s_fheap s) a0 (Some fi')) in *.
     assert (Hexp : forall x, x <> a0 -> fexp_of sh' x = fexp_of (s_fheap s) x).
     { intros x Hx. unfold fexp_of, sh'. rewrite upd_other by exact Hx. reflexivity. }
-    assert (He : fexp_of sh' a0 = true) by (unfold fexp_of, sh'; rewrite upd_same; reflexivity).
-    pose proof (users_clause (own_f s) (fexp_of (s_fheap s)) (s_uses s) _ p n a0 (fun u => in_s_users m s HC u p) G) as Gu.
+    pose proof (users_forall m s HC _ p G) as Gu. cbn beta in Gu.
     split; [|split]; [destruct HC; constructor; cbn; auto|exact HV|].
     unfold RF. cbn. fold fi'. fold sh'. constructor; auto.
     - intros x. unfold sh', upd. destruct (N.eqb_spec x a0) as [->|]; [cbn; auto|apply h1].
-    - intros p' n'. unfold push_users. destruct (mem p' (users m p)) eqn:Eu; cbn [andb].
+    - intros p' n'. unfold push_users. cbn. destruct (mem p' (users m p)) eqn:Eu; cbn [andb].
       + apply (mem_users m s HC) in Eu. destruct (N.eqb_spec n' n) as [->|Hn].
-        * rewrite (res_flag_on _ _ _ _ _ _ _ Eo h5 Hexp p' He Eu (Gu _ Eu)). rewrite h3.
-          destruct (Gu _ Eu) as [E|E]; rewrite E; reflexivity.
+        * specialize (Gu _ Eu). apply opt_addr_eqb_eq in Gu. rewrite h3, shared_entry. symmetry. exact Gu.
         * rewrite h3. symmetry. eapply res_flag_name; eauto.
       + rewrite h3. symmetry. eapply res_flag_nonuser; eauto.
         intros Hi. apply (mem_users m s HC) in Hi. congruence.
     - intros p' n' x Hx. destruct (h4 _ _ _ Hx) as (H1 & H2 & fi0 & H3 & H4). split; [auto|split; [auto|]].
       unfold sh', upd. destruct (N.eqb_spec x a0) as [->|]; [|eauto]. eexists; split; [reflexivity|]. cbn. congruence.
-    - eapply vis_flag_on; eauto.
-    - intros p' n' b Hb. destruct (h7 _ _ _ Hb) as (fi0 & sf1 & H1 & H2 & H3 & H4 & H5).
+    - intros p' n' b Hb. destruct (h6 _ _ _ Hb) as (fi0 & sf1 & H1 & H2 & H3 & H4 & H5).
       destruct (N.eq_dec b a0) as [->|Hb0].
       + unfold sh'. rewrite !upd_same. rewrite Hm in H1. injection H1 as <-. rewrite Hh in H2. injection H2 as <-.
         eexists; eexists. split; [reflexivity|split; [reflexivity|]]. cbn. auto.
       + unfold sh'. rewrite !upd_other by exact Hb0. eauto 10.
   Qed.
 
-  Lemma export_v_vn m s us p n a0 :
-    Inv m s -> mem n VN = true -> own_v s p n = Some a0 ->
-    forallb (fun u => opt_addr_eqb (resolve_v s u n) None || opt_addr_eqb (resolve_v s u n) (Some a0)) (s_users P s p) = true ->
+  Lemma export_v_inv m s us p n :
+    Inv m s -> mem n NM = true -> (own_v s p n = None -> resolve_v s p n = None) ->
     (forall u, mem u us = true <-> In p (s_uses s u)) ->
+    forallb (fun u => opt_addr_eqb (resolve_v (sexport_v s p n) u n)
+                        (shared (match own_v s p n with Some a => a | None => s_vnext s end) (resolve_v s u n))) (s_users P s p) = true ->
     Inv (export_v m us p n) (sexport_v s p n).
   Proof.
-    intros HI Hn Eo G Hus. pose proof HI as (HC & HV & HF). pose proof HV as [h1 h2 h3 h4 h5 h6 h7 h8 h9].
-    unfold export_v, sexport_v. rewrite (h3 _ _ Hn). change (res (own_v s) (vexp_of (s_vheap s)) (s_uses s)) with (resolve_v s).
-    rewrite Eo, (resolve_v_own _ _ _ _ Eo). destruct (h7 _ _ _ Hn Eo) as (vv & Hh & Hval & Hpk).
-    rewrite h1, Hh. unfold set_vexp. rewrite Hh.
-    set (vv' := {| vv_pkg := vv_pkg vv; vv_val := vv_val vv; vv_export := true |}).
-    set (sh' := upd (s_vheap s) a0 (Some vv')).
-    assert (Hexp : forall x, x <> a0 -> vexp_of sh' x = vexp_of (s_vheap s) x).
-    { intros x Hx. unfold vexp_of, sh'. rewrite upd_other by exact Hx. reflexivity. }
-    assert (He : vexp_of sh' a0 = true) by (unfold vexp_of, sh'; rewrite upd_same; reflexivity).
-    pose proof (users_clause (own_v s) (vexp_of (s_vheap s)) (s_uses s) _ p n a0 (fun u => in_s_users m s HC u p) G) as Gu.
-    split; [|split]; [destruct HC; constructor; cbn; auto| |exact HF].
-    unfold RV. cbn. fold vv'. fold sh'. apply RVp_intro; auto.
-    - intros x. unfold sh', upd. rewrite h1. reflexivity.
-    - intros p' n' Hn'. unfold push_users. destruct (mem p' us) eqn:Eu; cbn [andb].
-      + apply Hus in Eu. destruct (N.eqb_spec n' n) as [->|Hne].
-        * rewrite (res_flag_on _ _ _ _ _ _ _ Eo h6 Hexp p' He Eu (Gu _ Eu)). rewrite (h3 _ _ Hn).
-          destruct (Gu _ Eu) as [E|E]; rewrite E; reflexivity.
-        * rewrite (h3 _ _ Hn'). symmetry. eapply res_flag_name; eauto.
-      + rewrite (h3 _ _ Hn'). symmetry. eapply res_flag_nonuser; eauto.
-        intros Hi. apply Hus in Hi. congruence.
-    - intros p' n' Hn' Hr. assert (Hne : n' <> n) by (intros ->; congruence).
-      unfold push_users. destruct (N.eqb_spec n' n) as [|_]; [contradiction|]. rewrite andb_false_r.
-      apply h4. rewrite <- Hr. symmetry. eapply res_flag_name; eauto.
-    - intros p' n' x Hn' Hx. destruct (h7 _ _ _ Hn' Hx) as (vv0 & H1 & H2 & H3).
-      unfold sh', upd. destruct (N.eqb_spec x a0) as [->|]; [|eauto].
-      eexists; split; [reflexivity|]. cbn. split; congruence.
-    - intros p' n' x Hn' Hx. unfold sh'. rewrite upd_other; [eauto|]. intros ->.
-      destruct (h6 _ _ _ _ _ Eo Hx) as [_ ->]. congruence.
-    - eapply vis_flag_on; eauto.
-  Qed.
-
-  Lemma export_v_new m s us p n :
-    Inv m s -> mem n VN = false -> mem n FN = true -> resolve_v s p n = None ->
-    Inv (export_v m us p n) (sexport_v s p n).
-  Proof.
-    intros HI Hn Hfn Er. pose proof HI as (HC & HV & HF). pose proof HV as [h1 h2 h3 h4 h5 h6 h7 h8 h9].
-    assert (Hnone : own_v s p n = None) by (apply res_none_inv in Er; tauto).
-    unfold export_v, sexport_v. rewrite (h4 _ _ Er), Hnone. fold junk.
-    assert (Hfresh : forall p' n', own_v s p' n' <> Some (s_vnext s)).
-    { intros p' n' H. apply h5 in H. destruct H as [H _]. exact (N.lt_irrefl _ H). }
-    set (own' := upd2 (own_v s) p n (Some (s_vnext s))).
-    set (sh' := upd (s_vheap s) (s_vnext s) (Some junk)).
-    assert (Hown0 : own' p n = Some (s_vnext s)) by apply upd2_same.
-    assert (Hown1 : forall p' n', ~ (p' = p /\ n' = n) -> own' p' n' = own_v s p' n') by (intros; apply upd2_other; assumption).
-    assert (Hexp : forall x, x <> s_vnext s -> vexp_of sh' x = vexp_of (s_vheap s) x).
-    { intros x Hx. unfold vexp_of, sh'. rewrite upd_other by exact Hx. reflexivity. }
-    split; [|split]; [destruct HC; constructor; cbn; auto| |exact HF].
-    unfold RV, new_var. cbn. fold own'. fold sh'. apply RVp_intro.
-    - intros x. unfold sh', upd. rewrite h1, h2. reflexivity.
-    - rewrite h2. reflexivity.
-    - intros p' n' Hn'. assert (Hne : n' <> n) by (intros ->; congruence).
-      rewrite upd2_other by tauto. rewrite (h3 _ _ Hn'). symmetry. eapply res_new_name; eauto.
-    - intros p' n' Hn' Hr. destruct (upd2_cases (vars m) p n (Some (vnext m)) p' n') as [(-> & -> & _)|[Hne ->]].
-      + rewrite (res_own _ _ _ _ _ _ Hown0) in Hr. discriminate.
-      + apply h4. destruct (res (own_v s) (vexp_of (s_vheap s)) (s_uses s) p' n') eqn:E; [|reflexivity].
-        exfalso. eapply (res_new_mono (own_v s) own' (vexp_of (s_vheap s)) (vexp_of sh')); eauto. congruence.
-    - intros p' n' x Hx. destruct (upd2_cases (own_v s) p n (Some (s_vnext s)) p' n') as [(-> & -> & E)|[Hne E]];
-        unfold own' in Hx; rewrite E in Hx.
-      + injection Hx as <-. split; [lia|apply nm_fn, Hfn].
-      + apply h5 in Hx. destruct Hx. split; [lia|assumption].
-    - eapply inj_new; eauto.
-    - intros p' n' x Hn' Hx. assert (Hne : ~ (p' = p /\ n' = n)) by (intros [_ ->]; congruence).
-      unfold own' in Hx. rewrite upd2_other in Hx by exact Hne.
-      unfold sh'. rewrite upd_other; [eauto|]. intros ->. exact (Hfresh _ _ Hx).
-    - intros p' n' x Hn' Hx. destruct (upd2_cases (own_v s) p n (Some (s_vnext s)) p' n') as [(-> & -> & E)|[Hne E]];
-        unfold own' in Hx; rewrite E in Hx.
-      + injection Hx as <-. unfold sh'. apply upd_same.
-      + unfold sh'. rewrite upd_other; [eauto|]. intros ->. exact (Hfresh _ _ Hx).
-    - eapply vis_new_name; eauto.
+    intros HI Hn Hnone Hus G. pose proof HI as (HC & HV & HF). pose proof HV as [h1 h2 h3 h4 h5].
+    pose proof (users_forall m s HC _ p G) as Gu. cbn beta in Gu. clear G.
+    unfold export_v. rewrite h3. change (res (own_v s) (vexp_of (s_vheap s)) (s_uses s)) with (resolve_v s).
+    unfold sexport_v in *. destruct (own_v s p n) as [a0|] eqn:Eo.
+    - rewrite (resolve_v_own _ _ _ _ Eo). destruct (h4 _ _ _ Eo) as (Hlt & _ & vv & Hh & Hpk).
+      rewrite h1, Hh. unfold set_vexp in *. rewrite Hh in *.
+      set (vv' := {| vv_pkg := vv_pkg vv; vv_val := vv_val vv; vv_export := true |}) in *.
+      set (sh' := upd (s_vheap s) a0 (Some vv')) in *.
+      assert (Hexp : forall x, x <> a0 -> vexp_of sh' x = vexp_of (s_vheap s) x).
+      { intros x Hx. unfold vexp_of, sh'. rewrite upd_other by exact Hx. reflexivity. }
+      split; [|split]; [destruct HC; constructor; cbn; auto| |exact HF].
+      unfold RV. cbn. fold vv'. fold sh'. constructor; auto.
+      + intros x. unfold sh', upd. rewrite h1. reflexivity.
+      + intros p' n'. unfold push_users. cbn. destruct (mem p' us) eqn:Eu; cbn [andb].
+        * apply Hus in Eu. destruct (N.eqb_spec n' n) as [->|Hne].
+          -- specialize (Gu _ Eu). apply opt_addr_eqb_eq in Gu. rewrite h3, shared_entry. symmetry. exact Gu.
+          -- rewrite h3. symmetry. eapply res_flag_name; eauto.
+        * rewrite h3. symmetry. eapply res_flag_nonuser; eauto.
+          intros Hi. apply Hus in Hi. congruence.
+      + intros p' n' x Hx. destruct (h4 _ _ _ Hx) as (H1 & H2 & vv0 & H3 & H4). split; [auto|split; [auto|]].
+        unfold sh', upd. destruct (N.eqb_spec x a0) as [->|]; [|eauto].
+        eexists; split; [reflexivity|]. cbn. congruence.
+    - pose proof (Hnone eq_refl) as Er. rewrite Er.
+      assert (Hfresh : forall p' n', own_v s p' n' <> Some (s_vnext s)).
+      { intros p' n' H. apply h4 in H. destruct H as [H _]. exact (N.lt_irrefl _ H). }
+      set (cell := {| vv_pkg := Some p; vv_val := None; vv_export := true |}) in *.
+      set (own' := upd2 (own_v s) p n (Some (s_vnext s))).
+      set (sh' := upd (s_vheap s) (s_vnext s) (Some cell)).
+      assert (Hown0 : own' p n = Some (s_vnext s)) by apply upd2_same.
+      assert (Hown1 : forall p' n', ~ (p' = p /\ n' = n) -> own' p' n' = own_v s p' n') by (intros; apply upd2_other; assumption).
+      assert (Hexp : forall x, x <> s_vnext s -> vexp_of sh' x = vexp_of (s_vheap s) x).
+      { intros x Hx. unfold vexp_of, sh'. rewrite upd_other by exact Hx. reflexivity. }
+      split; [|split]; [destruct HC; constructor; cbn; auto| |exact HF].
+      unfold RV, new_var in *. cbn in *. fold own' in Gu |- *. fold sh' in Gu |- *. constructor.
+      + intros x. unfold sh', upd. rewrite h1, h2. reflexivity.
+      + rewrite h2. reflexivity.
+      + intros p' n'. rewrite h2. unfold push_users. destruct (mem p' us) eqn:Eu; cbn [andb].
+        * apply Hus in Eu. assert (Hp : p' <> p) by (apply (c_wf _ _ HC _ _ Eu)).
+          destruct (N.eqb_spec n' n) as [->|Hne].
+          -- rewrite upd2_other by tauto. specialize (Gu _ Eu). apply opt_addr_eqb_eq in Gu.
+             rewrite h3, shared_entry. symmetry. exact Gu.
+          -- rewrite upd2_other by tauto. rewrite h3. symmetry.
+             eapply (res_new_name2 (own_v s) own' (vexp_of (s_vheap s)) (vexp_of sh')); eauto.
+        * destruct (upd2_cases (vars m) p n (Some (s_vnext s)) p' n') as [(-> & -> & ->)|[Hne ->]].
+          -- symmetry. apply res_own, Hown0.
+          -- rewrite h3. symmetry. destruct (N.eq_dec n' n) as [->|Hn'].
+             ++ assert (Hp : p' <> p) by tauto.
+                eapply (res_new_nonuser (own_v s) own' (vexp_of (s_vheap s)) (vexp_of sh')); eauto.
+                intros Hi. apply Hus in Hi. congruence.
+             ++ eapply (res_new_name2 (own_v s) own' (vexp_of (s_vheap s)) (vexp_of sh')); eauto.
+      + intros p' n' x Hx. destruct (upd2_cases (own_v s) p n (Some (s_vnext s)) p' n') as [(-> & -> & E)|[Hne E]];
+          unfold own' in Hx; rewrite E in Hx.
+        * injection Hx as <-. split; [lia|split; [exact Hn|]]. unfold sh'. rewrite upd_same. eexists; split; reflexivity.
+        * destruct (h4 _ _ _ Hx) as (H1 & H2 & vv0 & H3 & H4). split; [lia|split; [exact H2|]].
+          unfold sh'. rewrite upd_other; [eauto|]. intros ->. exact (Hfresh _ _ Hx).
+      + eapply inj_new; eauto.
   Qed.
 
   Lemma sexport_f_resv s p n p' n' : resolve_v (sexport_f s p n) p' n' = resolve_v s p' n'.
   Proof. unfold sexport_f, set_fexp. destruct (own_f s p n) as [a|]; [destruct (s_fheap s a)|]; reflexivity. Qed.
+  Lemma sexport_f_uses s p n : s_uses (sexport_f s p n) = s_uses s.
+  Proof. unfold sexport_f, set_fexp. destruct (own_f s p n) as [a|]; [destruct (s_fheap s a)|]; reflexivity. Qed.
+  Lemma sexport_f_vnext s p n : s_vnext (sexport_f s p n) = s_vnext s.
+  Proof. unfold sexport_f, set_fexp. destruct (own_f s p n) as [a|]; [destruct (s_fheap s a)|]; reflexivity. Qed.
+  Lemma s_users_ext s s' p : s_uses s' = s_uses s -> s_users P s' p = s_users P s p.
+  Proof. intros H. unfold s_users. rewrite H. reflexivity. Qed.
+  Lemma export_f_users m p n q : users (export_f m p n) q = users m q.
+  Proof. unfold export_f. destruct (funcs m p n) as [a|]; [destruct (fheap m a)|]; reflexivity. Qed.
 
   Lemma step_export m s n p :
-    Inv m s -> sorted_op VN FN (OExport n p) = true -> guard_step P NMl s (OExport n p) = true ->
-    Inv (step m (OExport n p)) (sstep s (OExport n p)).
+    Inv m s -> guard_step P NM s (OExport n p) = true -> Inv (step m (OExport n p)) (sstep s (OExport n p)).
   Proof.
-    intros HI Hs G. pose proof HI as (HC & HV & HF). cbn [step]. rewrite export_split, sexport_split.
-    cbn [guard_step] in G. apply andb_true_iff in G. destruct G as [G Gf]. apply andb_true_iff in G. destruct G as [G Gv].
-    apply andb_true_iff in G. destruct G as [G0 G1].
+    intros HI G. pose proof HI as (HC & HV & HF). cbn [step sstep]. unfold export.
+    cbn [guard_step] in G. cbv zeta in G.
+    apply andb_true_iff in G. destruct G as [G G4]. apply andb_true_iff in G. destruct G as [G G3].
+    apply andb_true_iff in G. destruct G as [G1 G2]. apply andb_true_iff in G4. destruct G4 as [Gf Gv].
     assert (Hfn : own_f s p n = None -> resolve_f s p n = None).
-    { intros Eo. destruct (mem n VN) eqn:Hn; [apply (resf_vn m s HF), Hn|]. exfalso. rewrite Eo in G1.
-      destruct (own_v s p n) as [a|] eqn:Ev; [|discriminate].
-      rewrite (v_junk _ _ _ _ _ _ _ HV _ _ _ Hn Ev) in Gv. cbn in Gv. discriminate. }
+    { intros Eo. rewrite Eo in G2. cbn in G2. destruct (resolve_f s p n); [discriminate|reflexivity]. }
+    assert (Hvn : own_v s p n = None -> resolve_v s p n = None).
+    { intros Eo. rewrite Eo in G3. cbn in G3. destruct (resolve_v s p n); [discriminate|reflexivity]. }
     pose proof (export_f_inv m s p n HI Hfn Gf) as HI1.
-    destruct (mem n VN) eqn:Hn.
-    - pose proof (ownf_vn m s HF p n Hn) as Eo. rewrite Eo in G1.
-      unfold sexport_f in *. rewrite Eo in *.
-      destruct (own_v s p n) as [a0|] eqn:Ev; [|discriminate].
-      apply andb_true_iff in Gv. destruct Gv as [_ Gv].
-      eapply export_v_vn; eauto. intros u. apply (mem_users m s HC).
-    - cbn in Hs. rewrite Hn in Hs. cbn in Hs.
-      destruct (own_v s p n) as [a|] eqn:Ev.
-      + rewrite (v_junk _ _ _ _ _ _ _ HV _ _ _ Hn Ev) in Gv. cbn in Gv. discriminate.
-      + apply opt_addr_eqb_eq in Gv. apply export_v_new; auto. rewrite sexport_f_resv. exact Gv.
+    apply export_v_inv; auto.
+    - rewrite sexport_f_own_v, sexport_f_resv. exact Hvn.
+    - intros u. rewrite sexport_f_uses. apply (mem_users m s HC).
+    - rewrite sexport_f_own_v, sexport_f_vnext, (s_users_ext _ _ _ (sexport_f_uses s p n)).
+      erewrite forallb_ext'; [exact Gv|]. intros u. cbn beta. rewrite sexport_f_resv. reflexivity.
   Qed.
 
   (* ---- unexport: function part then variable part ---- *)
-  Definition unexport_f (s : state) (obj : pkgid) (n : name) : state :=
-    match funcs s obj n with
-    | Some a => match fheap s a with
-                | Some fi =>
-                    let s' := set_fheap s (upd (fheap s) a (Some {| fi_pkg := fi_pkg fi; fi_lam := fi_lam fi; fi_export := false |})) in
-                    set_funcs s' (fun p n' =>
-                      if mem p (users s obj) && N.eqb n' n then
-                        match funcs s' p n with
-                        | Some x => match fheap s' x with
-                                    | Some xf => if N.eqb (fi_pkg xf) obj then None else Some x
-                                    | None => Some x end
-                        | None => None end
-                      else funcs s' p n')
-                | None => s end
-    | None => s end.
-  Definition unexport_v (s1 : state) (us : list pkgid) (obj : pkgid) (n : name) : state :=
-    match vars s1 obj n with
-    | Some a => match vheap s1 a with
-                | Some vv =>
-                    let s' := set_vheap s1 (upd (vheap s1) a (Some {| vv_pkg := vv_pkg vv; vv_val := vv_val vv; vv_export := false |})) in
-                    set_vars s' (fun p n' =>
-                      if mem p us && N.eqb n' n then
-                        match vars s' p n with
-                        | Some x => match vheap s' x with
-                                    | Some xv => match vv_pkg xv with
-                                                 | Some q => if N.eqb q obj then None else Some x
-                                                 | None => Some x end
-                                    | None => Some x end
-                        | None => None end
-                      else vars s' p n')
-                | None => s1 end
-    | None => s1
-    end.
-  Lemma unexport_split m p n : unexport m p n = unexport_v (unexport_f m p n) (users m p) p n.
-  Proof. reflexivity. Qed.
-  Definition sunexport_f (s : sstate) (p : pkgid) (n : name) : sstate :=
-    match own_f s p n with Some a => set_fexp s a false | None => s end.
-  Definition sunexport_v (s1 : sstate) (p : pkgid) (n : name) : sstate :=
-    match own_v s1 p n with Some a => set_vexp s1 a false | None => s1 end.
-  Lemma sunexport_split s p n : sstep s (OUnexport n p) = sunexport_v (sunexport_f s p n) p n.
-  Proof. reflexivity. Qed.
-
-  Lemma resf_cell m s p n a :
-    RF m s -> resolve_f s p n = Some a ->
-    exists q fi, own_f s q n = Some a /\ s_fheap s a = Some fi /\ sf_pkg fi = q.
+  Lemma retracted_entry (test : addr -> bool) a (r : option addr) :
+    (forall x, r = Some x -> (test x = true <-> x = a)) ->
+    match r with Some x => if test x then None else Some x | None => None end = retracted a r.
   Proof.
-    intros HF Hr. assert (exists q, own_f s q n = Some a) as [q Hq].
-    { apply res_some_inv in Hr. destruct Hr as [Hr|(_ & q & _ & Hf)]; [eauto|]. apply eff_some in Hf. destruct Hf; eauto. }
-    destruct (f_own _ _ _ _ _ _ _ _ _ _ HF _ _ _ Hq) as (_ & _ & fi & H1 & H2). eauto 8.
+    intros H. destruct r as [x|]; [|reflexivity]. cbn. specialize (H x eq_refl).
+    destruct (test x) eqn:Et, (N.eqb_spec x a) as [->|Hx]; try reflexivity.
+    - exfalso. apply Hx, H. reflexivity.
+    - assert (false = true) by (apply H; reflexivity). discriminate.
   Qed.
 
   Lemma unexport_f_inv m s p n :
-    Inv m s -> (own_f s p n = None -> resolve_f s p n = None) ->
+    Inv m s ->
+    match own_f s p n with
+    | Some a => forallb (fun u => opt_addr_eqb (resolve_f (sunexport_f s p n) u n) (retracted a (resolve_f s u n))) (s_users P s p)
+    | None => true end = true ->
     Inv (unexport_f m p n) (sunexport_f s p n).
   Proof.
-    intros HI Hnone. pose proof HI as (HC & HV & HF). pose proof HF as [h1 h2 h3 h4 h5 h6 h7 h8].
-    unfold unexport_f, sunexport_f. rewrite h3. change (res (own_f s) (fexp_of (s_fheap s)) (s_uses s)) with (resolve_f s).
-    destruct (own_f s p n) as [a0|] eqn:Eo; [|rewrite (Hnone eq_refl); exact HI].
-    rewrite (resolve_f_own _ _ _ _ Eo). destruct (h4 _ _ _ Eo) as (Hlt & Hfn & fi & Hh & Hpk).
-    destruct (fheap_of_s m s HF a0 fi Hh) as (fim & Hm & Hmp & Hme). rewrite Hm. unfold set_fexp. rewrite Hh.
-    set (fi' := {| sf_pkg := sf_pkg fi; sf_val := sf_val fi; sf_export := false |}).
-    set (sh' := upd (s_fheap s) a0 (Some fi')).
-    assert (Hexp : forall x, x <> a0 -> fexp_of sh' x = fexp_of (s_fheap s) x).
-    { intros x Hx. unfold fexp_of, sh'. rewrite upd_other by exact Hx. reflexivity. }
-    assert (He : fexp_of sh' a0 = false) by (unfold fexp_of, sh'; rewrite upd_same; reflexivity).
-    assert (Hgood : (fun _ : name => true) n = true) by reflexivity.
-    split; [|split]; [destruct HC; constructor; cbn; auto|exact HV|].
-    unfold RF. cbn. fold fi'. fold sh'. constructor; auto.
-    - intros x. unfold sh', upd. destruct (N.eqb_spec x a0) as [->|]; [cbn; auto|apply h1].
-    - intros p' n'. destruct (mem p' (users m p)) eqn:Eu; cbn [andb].
-      + apply (mem_users m s HC) in Eu. assert (Hp : p' <> p) by (apply (c_wf _ _ HC _ _ Eu)).
-        destruct (N.eqb_spec n' n) as [->|Hn].
-        * rewrite h3. destruct (res (own_f s) (fexp_of (s_fheap s)) (s_uses s) p' n) as [x|] eqn:Ex.
-          -- destruct (resf_cell m s p' n x HF Ex) as (q' & fx & Hox & Hhx & Hpx).
-             destruct (N.eq_dec x a0) as [->|Hxa].
-             ++ rewrite upd_same. cbn. rewrite Hmp, Hpk, N.eqb_refl. symmetry.
-                eapply res_flag_off_a0 with (good := fun _ => true) (p0 := p); eauto.
-             ++ rewrite upd_other by exact Hxa. destruct (fheap_of_s m s HF x fx Hhx) as (fxm & Hxm & Hxp & _). rewrite Hxm, Hxp, Hpx.
-                destruct (N.eqb_spec q' p) as [->|Hq']; [congruence|]. symmetry.
-                eapply res_flag_off_other with (good := fun _ => true) (p0 := p) (a0 := a0); eauto.
-          -- symmetry. eapply res_flag_off_none; eauto.
-        * rewrite h3. symmetry. eapply res_flag_name; eauto.
-      + rewrite h3. symmetry. eapply res_flag_nonuser; eauto.
-        intros Hi. apply (mem_users m s HC) in Hi. congruence.
-    - intros p' n' x Hx. destruct (h4 _ _ _ Hx) as (H1 & H2 & fi0 & H3 & H4). split; [auto|split; [auto|]].
-      unfold sh', upd. destruct (N.eqb_spec x a0) as [->|]; [|eauto]. eexists; split; [reflexivity|]. cbn. congruence.
-    - eapply vis_flag_off; eauto.
-    - intros p' n' b Hb. destruct (h7 _ _ _ Hb) as (fi0 & sf1 & H1 & H2 & H3 & H4 & H5).
-      destruct (N.eq_dec b a0) as [->|Hb0].
-      + unfold sh'. rewrite !upd_same. rewrite Hm in H1. injection H1 as <-. rewrite Hh in H2. injection H2 as <-.
-        eexists; eexists. split; [reflexivity|split; [reflexivity|]]. cbn. auto.
-      + unfold sh'. rewrite !upd_other by exact Hb0. eauto 10.
+    intros HI G. pose proof HI as (HC & HV & HF). pose proof HF as [h1 h2 h3 h4 h5 h6 h7].
+    unfold unexport_f. rewrite h3. change (res (own_f s) (fexp_of (s_fheap s)) (s_uses s)) with (resolve_f s).
+    unfold sunexport_f in *.
+    destruct (own_f s p n) as [a0|] eqn:Eo.
+    - rewrite (resolve_f_own _ _ _ _ Eo). destruct (h4 _ _ _ Eo) as (Hlt & Hfn & fi & Hh & Hpk).
+      destruct (fheap_of_s m s HF a0 fi Hh) as (fim & Hm & Hmp & Hme). rewrite Hm, Hmp, Hpk, N.eqb_refl.
+      unfold set_fexp in *. rewrite Hh in *.
+      set (fi' := {| sf_pkg := sf_pkg fi; sf_val := sf_val fi; sf_export := false |}) in *.
+      set (sh' := upd (s_fheap s) a0 (Some fi')) in *.
+      assert (Hexp : forall x, x <> a0 -> fexp_of sh' x = fexp_of (s_fheap s) x).
+      { intros x Hx. unfold fexp_of, sh'. rewrite upd_other by exact Hx. reflexivity. }
+      pose proof (users_forall m s HC _ p G) as Gu. cbn beta in Gu.
+      set (m' := set_fheap m (upd (fheap m) a0 (Some {| fi_pkg := p; fi_lam := fi_lam fim; fi_export := false |}))).
+      assert (Hhome : forall x, fi_home m' p x = fi_home m p x).
+      { intros x. unfold fi_home, m'. cbn. unfold upd. destruct (N.eqb_spec x a0) as [->|]; [rewrite Hm, Hmp, Hpk|]; reflexivity. }
+      split; [|split]; [destruct HC; constructor; cbn; auto|exact HV|].
+      unfold RF. cbn. fold fi'. fold sh'. constructor; auto.
+      + intros x. unfold sh', upd. destruct (N.eqb_spec x a0) as [->|]; [cbn; auto|apply h1].
+      + intros p' n'. unfold drop_users. cbn. destruct (mem p' (users m p)) eqn:Eu; cbn [andb].
+        * apply (mem_users m s HC) in Eu. destruct (N.eqb_spec n' n) as [->|Hn].
+          -- specialize (Gu _ Eu). apply opt_addr_eqb_eq in Gu. rewrite h3.
+             rewrite (retracted_entry _ a0); [symmetry; exact Gu|].
+             intros x Hx. change (fi_home m' p x = true <-> x = a0). rewrite Hhome. eapply (home_f_is_own m s HF); eassumption.
+          -- rewrite h3. symmetry. eapply res_flag_name; eauto.
+        * rewrite h3. symmetry. eapply res_flag_nonuser; eauto.
+          intros Hi. apply (mem_users m s HC) in Hi. congruence.
+      + intros p' n' x Hx. destruct (h4 _ _ _ Hx) as (H1 & H2 & fi0 & H3 & H4). split; [auto|split; [auto|]].
+        unfold sh', upd. destruct (N.eqb_spec x a0) as [->|]; [|eauto]. eexists; split; [reflexivity|]. cbn. congruence.
+      + intros p' n' b Hb. destruct (h6 _ _ _ Hb) as (fi0 & sf1 & H1 & H2 & H3 & H4 & H5).
+        destruct (N.eq_dec b a0) as [->|Hb0].
+        * unfold sh'. rewrite !upd_same. rewrite Hm in H1. injection H1 as <-. rewrite Hh in H2. injection H2 as <-.
+          eexists; eexists. split; [reflexivity|split; [reflexivity|]]. cbn. auto.
+        * unfold sh'. rewrite !upd_other by exact Hb0. eauto 10.
+    - destruct (resolve_f s p n) as [a|] eqn:Er; [|exact HI].
+      destruct (resf_cell m s HF _ _ _ Er) as (q0 & sf & Ho & Hh & Hpk & _).
+      destruct (fheap_of_s m s HF a sf Hh) as (fim & Hm & Hmp & _). rewrite Hm, Hmp, Hpk.
+      destruct (N.eqb_spec q0 p) as [->|_]; [congruence|exact HI].
   Qed.
 
   Lemma unexport_v_inv m s us p n :
-    Inv m s -> (own_v s p n = None -> resolve_v s p n = None) -> (own_v s p n <> None -> mem n VN = true) ->
-    (forall u, mem u us = true <-> In p (s_uses s u)) ->
+    Inv m s -> (forall u, mem u us = true <-> In p (s_uses s u)) ->
+    match own_v s p n with
+    | Some a => forallb (fun u => opt_addr_eqb (resolve_v (sunexport_v s p n) u n) (retracted a (resolve_v s u n))) (s_users P s p)
+    | None => true end = true ->
     Inv (unexport_v m us p n) (sunexport_v s p n).
   Proof.
-    intros HI Hnone Hvn Hus. pose proof HI as (HC & HV & HF). pose proof HV as [h1 h2 h3 h4 h5 h6 h7 h8 h9].
-    unfold unexport_v, sunexport_v.
-    destruct (own_v s p n) as [a0|] eqn:Eo; [|rewrite (h4 _ _ (Hnone eq_refl)); exact HI].
-    assert (Hn : mem n VN = true) by (apply Hvn; discriminate).
-    rewrite (h3 _ _ Hn). rewrite (res_own _ _ _ _ _ _ Eo). destruct (h7 _ _ _ Hn Eo) as (vv & Hh & Hval & Hpk).
-    rewrite h1, Hh. unfold set_vexp. rewrite Hh.
-    set (vv' := {| vv_pkg := vv_pkg vv; vv_val := vv_val vv; vv_export := false |}).
-    set (sh' := upd (s_vheap s) a0 (Some vv')).
-    assert (Hexp : forall x, x <> a0 -> vexp_of sh' x = vexp_of (s_vheap s) x).
-    { intros x Hx. unfold vexp_of, sh'. rewrite upd_other by exact Hx. reflexivity. }
-    assert (He : vexp_of sh' a0 = false) by (unfold vexp_of, sh'; rewrite upd_same; reflexivity).
-    split; [|split]; [destruct HC; constructor; cbn; auto| |exact HF].
-    unfold RV. cbn. fold vv'. fold sh'. apply RVp_intro; auto.
-    - intros x. unfold sh', upd. rewrite h1. reflexivity.
-    - intros p' n' Hn'. destruct (mem p' us) eqn:Eu; cbn [andb].
-      + apply Hus in Eu. assert (Hp : p' <> p) by (apply (c_wf _ _ HC _ _ Eu)).
-        destruct (N.eqb_spec n' n) as [->|Hne].
-        * rewrite (h3 _ _ Hn). destruct (res (own_v s) (vexp_of (s_vheap s)) (s_uses s) p' n) as [x|] eqn:Ex.
-          -- destruct (resv_cell m s p' n x HV Hn Ex) as (q' & xv & Hox & Hhx & _ & Hpx).
-             destruct (N.eq_dec x a0) as [->|Hxa].
-             ++ rewrite upd_same. cbn. rewrite Hpk, N.eqb_refl. symmetry.
-                eapply res_flag_off_a0 with (good := fun n => mem n VN) (p0 := p); eauto.
-             ++ rewrite upd_other by exact Hxa. rewrite h1, Hhx, Hpx.
-                destruct (N.eqb_spec q' p) as [->|Hq']; [congruence|]. symmetry.
-                eapply res_flag_off_other with (good := fun n => mem n VN) (p0 := p) (a0 := a0); eauto.
-          -- symmetry. eapply res_flag_off_none; eauto.
-        * rewrite (h3 _ _ Hn'). symmetry. eapply res_flag_name; eauto.
-      + rewrite (h3 _ _ Hn'). symmetry. eapply res_flag_nonuser; eauto.
-        intros Hi. apply Hus in Hi. congruence.
-    - intros p' n' Hn' Hr. assert (Hne : n' <> n) by (intros ->; congruence).
-      destruct (N.eqb_spec n' n) as [|_]; [contradiction|]. rewrite andb_false_r.
-      apply h4. rewrite <- Hr. symmetry. eapply res_flag_name; eauto.
-    - intros p' n' x Hn' Hx. destruct (h7 _ _ _ Hn' Hx) as (vv0 & H1 & H2 & H3).
-      unfold sh', upd. destruct (N.eqb_spec x a0) as [->|]; [|eauto].
-      eexists; split; [reflexivity|]. cbn. split; congruence.
-    - intros p' n' x Hn' Hx. unfold sh'. rewrite upd_other; [eauto|]. intros ->.
-      destruct (h6 _ _ _ _ _ Eo Hx) as [_ ->]. congruence.
-    - eapply vis_flag_off with (good := fun n => mem n VN); eauto.
+    intros HI Hus G. pose proof HI as (HC & HV & HF). pose proof HV as [h1 h2 h3 h4 h5].
+    unfold unexport_v. rewrite h3. change (res (own_v s) (vexp_of (s_vheap s)) (s_uses s)) with (resolve_v s).
+    unfold sunexport_v in *.
+    destruct (own_v s p n) as [a0|] eqn:Eo.
+    - rewrite (resolve_v_own _ _ _ _ Eo). destruct (h4 _ _ _ Eo) as (Hlt & _ & vv & Hh & Hpk).
+      assert (Hpe : opt_pkg_eqb (vv_pkg vv) p = true) by (rewrite Hpk; apply N.eqb_refl).
+      rewrite h1, Hh, Hpe.
+      unfold set_vexp in *. rewrite Hh in *.
+      set (vv' := {| vv_pkg := vv_pkg vv; vv_val := vv_val vv; vv_export := false |}) in *.
+      set (sh' := upd (s_vheap s) a0 (Some vv')) in *.
+      assert (Hexp : forall x, x <> a0 -> vexp_of sh' x = vexp_of (s_vheap s) x).
+      { intros x Hx. unfold vexp_of, sh'. rewrite upd_other by exact Hx. reflexivity. }
+      pose proof (users_forall m s HC _ p G) as Gu. cbn beta in Gu.
+      set (m' := set_vheap m (upd (vheap m) a0 (Some vv'))).
+      assert (Hhome : forall x, vv_home m' p x = vv_home m p x).
+      { intros x. unfold vv_home, m'. cbn. unfold upd. destruct (N.eqb_spec x a0) as [->|]; [rewrite h1, Hh|]; reflexivity. }
+      split; [|split]; [destruct HC; constructor; cbn; auto| |exact HF].
+      unfold RV. cbn. fold vv'. fold sh'. constructor; auto.
+      + intros x. unfold sh', upd. rewrite h1. reflexivity.
+      + intros p' n'. unfold drop_users. cbn. destruct (mem p' us) eqn:Eu; cbn [andb].
+        * apply Hus in Eu. destruct (N.eqb_spec n' n) as [->|Hne].
+          -- specialize (Gu _ Eu). apply opt_addr_eqb_eq in Gu. rewrite h3.
+             rewrite (retracted_entry _ a0); [symmetry; exact Gu|].
+             intros x Hx. change (vv_home m' p x = true <-> x = a0). rewrite Hhome. eapply (home_v_is_own m s HV); eassumption.
+          -- rewrite h3. symmetry. eapply res_flag_name; eauto.
+        * rewrite h3. symmetry. eapply res_flag_nonuser; eauto.
+          intros Hi. apply Hus in Hi. congruence.
+      + intros p' n' x Hx. destruct (h4 _ _ _ Hx) as (H1 & H2 & vv0 & H3 & H4). split; [auto|split; [auto|]].
+        unfold sh', upd. destruct (N.eqb_spec x a0) as [->|]; [|eauto].
+        eexists; split; [reflexivity|]. cbn. congruence.
+    - destruct (resolve_v s p n) as [a|] eqn:Er; [|exact HI].
+      destruct (resv_cell m s HV _ _ _ Er) as (q0 & vv & Ho & Hh & Hpk & _).
+      rewrite h1, Hh, Hpk. cbn [opt_pkg_eqb].
+      destruct (N.eqb_spec q0 p) as [->|_]; [congruence|exact HI].
   Qed.
 
   Lemma sunexport_f_resv s p n p' n' : resolve_v (sunexport_f s p n) p' n' = resolve_v s p' n'.
   Proof. unfold sunexport_f, set_fexp. destruct (own_f s p n) as [a|]; [destruct (s_fheap s a)|]; reflexivity. Qed.
-  Lemma sunexport_f_ownv s p n p' n' : own_v (sunexport_f s p n) p' n' = own_v s p' n'.
-  Proof. unfold sunexport_f, set_fexp. destruct (own_f s p n) as [a|]; [destruct (s_fheap s a)|]; reflexivity. Qed.
-  Lemma sunexport_f_uses s p n u : s_uses (sunexport_f s p n) u = s_uses s u.
+  Lemma sunexport_f_uses s p n : s_uses (sunexport_f s p n) = s_uses s.
   Proof. unfold sunexport_f, set_fexp. destruct (own_f s p n) as [a|]; [destruct (s_fheap s a)|]; reflexivity. Qed.
 
   Lemma step_unexport m s n p :
-    Inv m s -> sorted_op VN FN (OUnexport n p) = true -> guard_step P NMl s (OUnexport n p) = true ->
-    Inv (step m (OUnexport n p)) (sstep s (OUnexport n p)).
+    Inv m s -> guard_step P NM s (OUnexport n p) = true -> Inv (step m (OUnexport n p)) (sstep s (OUnexport n p)).
   Proof.
-    intros HI Hs G. pose proof HI as (HC & HV & HF). cbn [step]. rewrite unexport_split, sunexport_split.
-    cbn [guard_step] in G. apply andb_true_iff in G. destruct G as [G Gf]. apply andb_true_iff in G. destruct G as [G0 Gv].
-    assert (Hfn : own_f s p n = None -> resolve_f s p n = None).
-    { intros Eo. rewrite Eo in Gf. apply opt_addr_eqb_eq in Gf. exact Gf. }
-    pose proof (unexport_f_inv m s p n HI Hfn) as HI1.
+    intros HI G. pose proof HI as (HC & HV & HF). cbn [step sstep]. unfold unexport.
+    cbn [guard_step] in G. cbv zeta in G. apply andb_true_iff in G. destruct G as [Gf Gv].
+    pose proof (unexport_f_inv m s p n HI Gf) as HI1.
     apply unexport_v_inv; auto.
-    - rewrite sunexport_f_ownv, sunexport_f_resv. intros Eo. rewrite Eo in Gv. apply opt_addr_eqb_eq in Gv. exact Gv.
-    - rewrite sunexport_f_ownv. intros Eo. destruct (own_v s p n) as [a|] eqn:Ev; [|congruence].
-      destruct (mem n VN) eqn:Hn; [reflexivity|]. rewrite (v_junk _ _ _ _ _ _ _ HV _ _ _ Hn Ev) in Gv. cbn in Gv. discriminate.
     - intros u. rewrite sunexport_f_uses. apply (mem_users m s HC).
+    - rewrite sunexport_f_own_v, (s_users_ext _ _ _ (sunexport_f_uses s p n)).
+      destruct (own_v s p n) as [a|]; [|reflexivity].
+      erewrite forallb_ext'; [exact Gv|]. intros u. cbn beta. rewrite sunexport_f_resv. reflexivity.
   Qed.
 
-  (* ---- every guarded step of a name-disciplined history preserves the relation ---- *)
-  Theorem step_preserves m s o :
-    Inv m s -> sorted_op VN FN o = true -> guard_step P NMl s o = true -> Inv (step m o) (sstep s o).
+  (* ---- makunbound / fmakunbound ---- *)
+  Lemma RVp_own_ext T mh mn own own' sh sn us :
+    (forall p n, own p n = own' p n) -> RVp T mh mn own sh sn us -> RVp T mh mn own' sh sn us.
   Proof.
-    intros HI Hs G. destruct o.
+    intros H [h1 h2 h3 h4 h5]. constructor; auto.
+    - intros p n. rewrite <- (res_ext_own own own' _ _ _ _ H). auto.
+    - intros p n a. rewrite <- H. apply h4.
+    - eapply inj_ext_own; eassumption.
+  Qed.
+  Lemma RFp_own_ext T mh lh pl mn ln own own' sh sn us :
+    (forall p n, own p n = own' p n) -> RFp T mh lh pl mn ln own sh sn us -> RFp T mh lh pl mn ln own' sh sn us.
+  Proof.
+    intros H [h1 h2 h3 h4 h5 h6 h7]. constructor; auto.
+    - intros p n. rewrite <- (res_ext_own own own' _ _ _ _ H). auto.
+    - intros p n a. rewrite <- H. apply h4.
+    - eapply inj_ext_own; eassumption.
+    - intros p n a. rewrite <- H. apply h6.
+  Qed.
+
+  Lemma step_makunbound m s n :
+    Inv m s -> guard_step P NM s (OMakunbound n) = true -> Inv (step m (OMakunbound n)) (sstep s (OMakunbound n)).
+  Proof.
+    intros HI G. pose proof HI as (HC & HV & HF). pose proof HV as [h1 h2 h3 h4 h5].
+    cbn [guard_step] in G. cbn [step sstep] in *. unfold remove_var.
+    rewrite (c_cur _ _ HC), h3. change (res (own_v s) (vexp_of (s_vheap s)) (s_uses s)) with (resolve_v s).
+    set (c := s_cur s) in *.
+    destruct (own_v s c n) as [a|] eqn:Eo.
+    - rewrite (resolve_v_own _ _ _ _ Eo). destruct (h4 _ _ _ Eo) as (Hlt & Hnm & vv & Hh & Hpk).
+      rewrite h1, Hh, Hpk, N.eqb_refl. cbn [negb].
+      apply andb_true_iff in G. destruct G as [G0 G]. pose proof (users_forall m s HC _ c G) as Gu. cbn beta in Gu. clear G.
+      set (own' := upd2 (own_v s) c n None) in *.
+      assert (Hown0 : own' c n = None) by apply upd2_same.
+      assert (Hown1 : forall p' n', ~ (p' = c /\ n' = n) -> own' p' n' = own_v s p' n') by (intros; apply upd2_other; assumption).
+      split; [|split]; [destruct HC; constructor; cbn; auto| |exact HF].
+      unfold RV. cbn. fold own'. constructor; auto.
+      + intros p' n'. destruct (pair_eqb_cases p' n' c n) as [(-> & -> & ->)|[Hne ->]].
+        * symmetry. apply is_some_false. destruct (is_some _) eqn:E in G0; [discriminate|]. exact E.
+        * unfold drop_users. destruct (mem p' (users m c)) eqn:Eu; cbn [andb].
+          -- apply (mem_users m s HC) in Eu. destruct (N.eqb_spec n' n) as [->|Hn].
+             ++ specialize (Gu _ Eu). apply opt_addr_eqb_eq in Gu. rewrite h3.
+                rewrite (retracted_entry _ a); [symmetry; exact Gu|].
+                intros x Hx. eapply (home_v_is_own m s HV); eassumption.
+             ++ rewrite h3. symmetry. eapply res_rm_name; eauto.
+          -- rewrite h3. symmetry. destruct (N.eq_dec n' n) as [->|Hn]; [|eapply res_rm_name; eauto].
+             apply (res_rm_nonuser (own_v s) own' _ (s_uses s) c n Hown1); [tauto|].
+             intros Hi. apply (mem_users m s HC) in Hi. congruence.
+      + intros p' n' x Hx. destruct (upd2_cases (own_v s) c n None p' n') as [(-> & -> & E)|[Hne E]];
+          unfold own' in Hx; rewrite E in Hx; [discriminate|eauto].
+      + eapply inj_rm; eauto.
+    - assert (Hsame : Inv m (sstep s (OMakunbound n))).
+      { split; [|split]; [destruct HC; constructor; cbn; auto| |exact HF].
+        unfold RV. cbn. eapply RVp_own_ext; [apply upd2_none_noop, Eo|exact HV]. }
+      cbn [sstep] in Hsame. fold c in Hsame.
+      destruct (resolve_v s c n) as [a|] eqn:Er; [|exact Hsame].
+      destruct (resv_cell m s HV _ _ _ Er) as (q0 & vv & Ho & Hh & Hpk & _).
+      rewrite h1, Hh, Hpk. destruct (N.eqb_spec q0 c) as [->|_]; [congruence|exact Hsame].
+  Qed.
+
+  Lemma step_fmakunbound m s n :
+    Inv m s -> guard_step P NM s (OFmakunbound n) = true -> Inv (step m (OFmakunbound n)) (sstep s (OFmakunbound n)).
+  Proof.
+    intros HI G. pose proof HI as (HC & HV & HF). pose proof HF as [h1 h2 h3 h4 h5 h6 h7].
+    cbn [guard_step] in G. cbn [step sstep] in *. unfold undefine.
+    rewrite (c_cur _ _ HC), h3. change (res (own_f s) (fexp_of (s_fheap s)) (s_uses s)) with (resolve_f s).
+    set (c := s_cur s) in *.
+    destruct (own_f s c n) as [a|] eqn:Eo.
+    - rewrite (resolve_f_own _ _ _ _ Eo).
+      assert (Hhm : fi_home m c a = true) by (apply (home_f m s HF c n a); [apply resolve_f_own, Eo|exact Eo]).
+      rewrite Hhm.
+      apply andb_true_iff in G. destruct G as [G0 G]. pose proof (users_forall m s HC _ c G) as Gu. cbn beta in Gu. clear G.
+      set (own' := upd2 (own_f s) c n None) in *.
+      assert (Hown0 : own' c n = None) by apply upd2_same.
+      assert (Hown1 : forall p' n', ~ (p' = c /\ n' = n) -> own' p' n' = own_f s p' n') by (intros; apply upd2_other; assumption).
+      split; [|split]; [destruct HC; constructor; cbn; auto|exact HV|].
+      unfold RF. cbn. fold own'. constructor; auto.
+      + intros p' n'. destruct (pair_eqb_cases p' n' c n) as [(-> & -> & ->)|[Hne ->]].
+        * symmetry. apply is_some_false. destruct (is_some _) eqn:E in G0; [discriminate|]. exact E.
+        * unfold drop_users. destruct (mem p' (users m c)) eqn:Eu; cbn [andb].
+          -- apply (mem_users m s HC) in Eu. destruct (N.eqb_spec n' n) as [->|Hn].
+             ++ specialize (Gu _ Eu). apply opt_addr_eqb_eq in Gu. rewrite h3.
+                rewrite (retracted_entry _ a); [symmetry; exact Gu|].
+                intros x Hx. rewrite N.eqb_eq. split; congruence.
+             ++ rewrite h3. symmetry. eapply res_rm_name; eauto.
+          -- rewrite h3. symmetry. destruct (N.eq_dec n' n) as [->|Hn]; [|eapply res_rm_name; eauto].
+             apply (res_rm_nonuser (own_f s) own' _ (s_uses s) c n Hown1); [tauto|].
+             intros Hi. apply (mem_users m s HC) in Hi. congruence.
+      + intros p' n' x Hx. destruct (upd2_cases (own_f s) c n None p' n') as [(-> & -> & E)|[Hne E]];
+          unfold own' in Hx; rewrite E in Hx; [discriminate|eauto].
+      + eapply inj_rm; eauto.
+      + intros p' n' x Hx. destruct (upd2_cases (own_f s) c n None p' n') as [(-> & -> & E)|[Hne E]];
+          unfold own' in Hx; rewrite E in Hx; [discriminate|eauto].
+    - assert (Hsame : Inv m (sstep s (OFmakunbound n))).
+      { split; [|split]; [destruct HC; constructor; cbn; auto|exact HV|].
+        unfold RF. cbn. eapply RFp_own_ext; [apply upd2_none_noop, Eo|exact HF]. }
+      cbn [sstep] in Hsame. fold c in Hsame.
+      destruct (resolve_f s c n) as [a|] eqn:Er; [|exact Hsame].
+      destruct (fi_home m c a) eqn:Eh; [|exact Hsame].
+      apply (home_f m s HF c n a Er) in Eh. congruence.
+  Qed.
+
+  (* ---- defun ---- *)
+  (* the Lambda bookkeeping of DefLambda with the registry of the package hm *)
+  Lemma lam_facts m s hm n v :
+    RF m s ->
+    let l := lnext m in
+    let lh := match plam m hm n with Some x => upd (upd (lheap m) l (Some v)) x (Some v) | None => upd (lheap m) l (Some v) end in
+    let pl := match plam m hm n with Some _ => plam m | None => upd2 (plam m) hm n (Some l) end in
+    lh l = Some v /\
+    (forall p' n', pl p' n' = Some l -> p' = hm /\ n' = n) /\
+    (forall p' n' x, pl p' n' = Some x -> x < l + 1) /\
+    (forall p' n' b, own_f s p' n' = Some b -> ~ (p' = hm /\ n' = n) ->
+       exists fi sf, fheap m b = Some fi /\ s_fheap s b = Some sf /\ lh (fi_lam fi) = Some (sf_val sf) /\ fi_lam fi < l + 1 /\
+                     (forall p'' n'', pl p'' n'' = Some (fi_lam fi) -> p'' = p' /\ n'' = n')).
+  Proof.
+    intros HF l lh pl. pose proof HF as [h1 h2 h3 h4 h5 h6 h7].
+    assert (Hl_lh : lh l = Some v).
+    { unfold lh. destruct (plam m hm n) as [x|] eqn:Ex; [|apply upd_same].
+      rewrite upd_other; [apply upd_same|]. intros E. apply h7 in Ex. fold l in Ex. rewrite E in Ex. exact (N.lt_irrefl _ Ex). }
+    assert (Hlh_other : forall y, y <> l -> (forall x, plam m hm n = Some x -> y <> x) -> lh y = lheap m y).
+    { intros y Hy Hx. unfold lh. destruct (plam m hm n) as [x|] eqn:Ex.
+      - rewrite upd_other by (apply Hx; reflexivity). apply upd_other, Hy.
+      - apply upd_other, Hy. }
+    assert (Hpl_l : forall p' n', pl p' n' = Some l -> p' = hm /\ n' = n).
+    { intros p' n'. unfold pl. destruct (plam m hm n) as [x|] eqn:Ex.
+      - intros E. apply h7 in E. exfalso. exact (N.lt_irrefl _ E).
+      - destruct (upd2_cases (plam m) hm n (Some l) p' n') as [(-> & -> & _)|[_ ->]]; [auto|].
+        intros E. apply h7 in E. exfalso. exact (N.lt_irrefl _ E). }
+    assert (Hpl_other : forall p' n' y, y <> l -> pl p' n' = Some y -> plam m p' n' = Some y).
+    { intros p' n' y Hy. unfold pl. destruct (plam m hm n) as [x|] eqn:Ex; [auto|].
+      destruct (upd2_cases (plam m) hm n (Some l) p' n') as [(-> & -> & ->)|[_ ->]]; [congruence|auto]. }
+    split; [exact Hl_lh|split; [exact Hpl_l|split]].
+    - intros p' n' x E. destruct (N.eq_dec x l) as [->|Hx]; [lia|]. apply Hpl_other in E; [|exact Hx]. apply h7 in E. fold l in E. lia.
+    - intros p' n' b Hb Hne. destruct (h6 _ _ _ Hb) as (fi & sf & H1 & H2 & H3 & H4 & H5). exists fi, sf.
+      assert (Hy : fi_lam fi <> l) by (fold l in H4; lia).
+      split; [exact H1|split; [exact H2|split; [|split; [fold l in H4; lia|]]]].
+      + rewrite Hlh_other; [exact H3|exact Hy|]. intros x Ex E. apply Hne. destruct (H5 hm n) as [-> ->]; [congruence|auto].
+      + intros p'' n'' E. apply H5. eapply Hpl_other; eassumption.
+  Qed.
+
+  (* the symbol test of DefLambda on p's table entry = the exported own symbol of S *)
+  Lemma sym_eq m s c n :
+    RV m s -> noself (s_uses s) ->
+    match vars m c n with
+    | Some x => match vheap m x with
+                | Some vv => match vv_val vv with
+                             | None => if vv_export vv && opt_pkg_eqb (vv_pkg vv) c then Some x else None
+                             | Some _ => None end
+                | None => None end
+    | None => None end = exported_symbol s c n.
+  Proof.
+    intros HV Hns. pose proof HV as [h1 h2 h3 h4 h5]. rewrite h3. change (res (own_v s) (vexp_of (s_vheap s)) (s_uses s)) with (resolve_v s).
+    unfold exported_symbol. destruct (own_v s c n) as [x|] eqn:Eo.
+    - rewrite (resolve_v_own _ _ _ _ Eo). destruct (h4 _ _ _ Eo) as (_ & _ & vv & Hh & Hpk). rewrite h1, Hh, Hpk. cbn [opt_pkg_eqb].
+      rewrite N.eqb_refl, andb_true_r. reflexivity.
+    - destruct (resolve_v s c n) as [x|] eqn:Er; [|reflexivity].
+      destruct (resv_cell m s HV _ _ _ Er) as (q0 & vv & Ho & Hh & Hpk & Hq). rewrite h1, Hh, Hpk. cbn [opt_pkg_eqb].
+      destruct (N.eqb_spec q0 c) as [->|_]; [congruence|]. rewrite andb_false_r. destruct (vv_val vv); reflexivity.
+  Qed.
+
+  Lemma step_defun m s n v :
+    Inv m s -> guard_step P NM s (ODefun n v) = true -> Inv (step m (ODefun n v)) (sstep s (ODefun n v)).
+  Proof.
+    intros HI G. pose proof HI as (HC & HV & HF). pose proof HF as [h1 h2 h3 h4 h5 h6 h7].
+    cbn [guard_step] in G. apply andb_true_iff in G. destruct G as [Gn G].
+    cbn [step sstep] in *. unfold defun. cbv zeta.
+    rewrite (c_cur _ _ HC), (sym_eq m s _ n HV (noself_uses m s HC)), h3.
+    change (res (own_f s) (fexp_of (s_fheap s)) (s_uses s)) with (resolve_f s).
+    set (c := s_cur s) in *.
+    destruct (resolve_f s c n) as [a|] eqn:Er.
+    - (* redefinition of the visible function, in its home package hm *)
+      destruct (resf_cell m s HF _ _ _ Er) as (hm & sf0 & Go & Hh0 & Hpk & _).
+      destruct (fheap_of_s m s HF a sf0 Hh0) as (fim & Hfi & Hfp & Hfe). rewrite Hfi, Hh0, Hfp, Hpk.
+      destruct (lam_facts m s hm n v HF) as (Hl_lh & Hpl_l & Hpl_lt & Hlive).
+      set (l := lnext m) in *.
+      set (lh := match plam m hm n with Some x => upd (upd (lheap m) l (Some v)) x (Some v) | None => upd (lheap m) l (Some v) end) in *.
+      set (pl := match plam m hm n with Some _ => plam m | None => upd2 (plam m) hm n (Some l) end) in *.
+      assert (Hexp : forall x, fexp_of (s_fheap s) x =
+                fexp_of (upd (s_fheap s) a (Some {| sf_pkg := hm; sf_val := v; sf_export := sf_export sf0 |})) x).
+      { intros x. unfold fexp_of, upd. destruct (N.eqb_spec x a) as [->|]; [rewrite Hh0|]; reflexivity. }
+      split; [|split]; [destruct HC; constructor; cbn; auto|exact HV|].
+      unfold RF. cbn. constructor; auto.
+      + intros x. unfold upd. destruct (N.eqb_spec x a) as [->|]; [|apply h1]. cbn. auto.
+      + intros p' n'. rewrite <- (res_exp_ext _ _ _ _ _ _ Hexp). auto.
+      + intros p' n' x Hx. destruct (h4 _ _ _ Hx) as (H1 & H2 & fi' & H3 & H4). split; [auto|split;[auto|]].
+        unfold upd. destruct (N.eqb_spec x a) as [->|]; [|eauto]. eexists; split; [reflexivity|]. cbn. congruence.
+      + intros p' n' b Hb. destruct (N.eq_dec b a) as [->|Hba].
+        * destruct (h5 _ _ _ _ _ Hb Go) as [-> ->]. rewrite !upd_same. eexists; eexists.
+          split; [reflexivity|split; [reflexivity|]]. cbn. split; [exact Hl_lh|split; [lia|exact Hpl_l]].
+        * rewrite !upd_other by exact Hba. apply Hlive; [exact Hb|]. intros [-> ->]. congruence.
+    - (* a new function of the current package; its Lambda registry is the package's own *)
+      destruct (lam_facts m s c n v HF) as (Hl_lh & Hpl_l & Hpl_lt & Hlive).
+      set (l := lnext m) in *.
+      set (lh := match plam m c n with Some x => upd (upd (lheap m) l (Some v)) x (Some v) | None => upd (lheap m) l (Some v) end) in *.
+      set (pl := match plam m c n with Some _ => plam m | None => upd2 (plam m) c n (Some l) end) in *.
+      assert (Hnone : own_f s c n = None) by (apply res_none_inv in Er; tauto).
+      assert (Hfresh : forall p' n', own_f s p' n' <> Some (s_fnext s)).
+      { intros p' n' H. apply h4 in H. destruct H as [H _]. exact (N.lt_irrefl _ H). }
+      set (own' := upd2 (own_f s) c n (Some (s_fnext s))).
+      assert (Hown0 : own' c n = Some (s_fnext s)) by apply upd2_same.
+      assert (Hown1 : forall p' n', ~ (p' = c /\ n' = n) -> own' p' n' = own_f s p' n') by (intros; apply upd2_other; assumption).
+      destruct (exported_symbol s c n) as [x|] eqn:Ex.
+      + (* the name is an exported symbol of the package: external function, shared with the users *)
+        apply andb_true_iff in G. destruct G as [G0 G]. pose proof (users_forall m s HC _ c G) as Gu. cbn beta in Gu. clear G.
+        assert (Eov : own_v s c n = Some x).
+        { unfold exported_symbol in Ex. destruct (own_v s c n) as [y|]; [|discriminate].
+          destruct (s_vheap s y) as [vv|]; [|discriminate]. destruct (vv_val vv); [discriminate|].
+          destruct (vv_export vv); [congruence|discriminate]. }
+        pose proof HV as [g1 g2 g3 g4 g5].
+        set (ownv' := upd2 (own_v s) c n None) in *.
+        assert (Hv0 : ownv' c n = None) by apply upd2_same.
+        assert (Hv1 : forall p' n', ~ (p' = c /\ n' = n) -> ownv' p' n' = own_v s p' n') by (intros; apply upd2_other; assumption).
+        set (cell := {| sf_pkg := c; sf_val := v; sf_export := true |}) in *.
+        set (sh' := upd (s_fheap s) (s_fnext s) (Some cell)) in *.
+        assert (Hexp : forall y, y <> s_fnext s -> fexp_of sh' y = fexp_of (s_fheap s) y).
+        { intros y Hy. unfold fexp_of, sh'. rewrite upd_other by exact Hy. reflexivity. }
+        split; [|split]; [destruct HC; constructor; cbn; auto| |].
+        * unfold RV. cbn. fold ownv'. constructor; auto.
+          -- intros p' n'. destruct (pair_eqb_cases p' n' c n) as [(-> & -> & ->)|[Hne ->]].
+             ++ symmetry. apply is_some_false. destruct (is_some _) eqn:E in G0; [discriminate|]. exact E.
+             ++ unfold drop_users. destruct (mem p' (users m c)) eqn:Eu; cbn [andb].
+                ** apply (mem_users m s HC) in Eu. destruct (N.eqb_spec n' n) as [->|Hn].
+                   --- specialize (Gu _ Eu). apply andb_true_iff in Gu. destruct Gu as [Gu _]. apply opt_addr_eqb_eq in Gu. rewrite g3.
+                       rewrite (retracted_entry _ x); [symmetry; exact Gu|].
+                       intros y Hy. rewrite N.eqb_eq. split; congruence.
+                   --- rewrite g3. symmetry. eapply res_rm_name; eauto.
+                ** rewrite g3. symmetry. destruct (N.eq_dec n' n) as [->|Hn]; [|eapply res_rm_name; eauto].
+                   apply (res_rm_nonuser (own_v s) ownv' _ (s_uses s) c n Hv1); [tauto|].
+                   intros Hi. apply (mem_users m s HC) in Hi. congruence.
+          -- intros p' n' y Hy. destruct (upd2_cases (own_v s) c n None p' n') as [(-> & -> & E)|[Hne E]];
+               unfold ownv' in Hy; rewrite E in Hy; [discriminate|eauto].
+          -- eapply inj_rm; eauto.
+        * unfold RF. cbn. fold l. fold cell; fold own'; fold sh'. constructor.
+          -- intros y. rewrite h2. unfold sh', upd. destruct (N.eqb_spec y (s_fnext s)) as [->|]; [|apply h1]. cbn. auto.
+          -- rewrite h2. reflexivity.
+          -- intros p' n'. rewrite h2. unfold push_users. destruct (mem p' (users m c)) eqn:Eu; cbn [andb].
+             ++ apply (mem_users m s HC) in Eu. assert (Hp : p' <> c) by (apply (c_wf _ _ HC _ _ Eu)).
+                destruct (N.eqb_spec n' n) as [->|Hne].
+                ** rewrite upd2_other by tauto. specialize (Gu _ Eu). apply andb_true_iff in Gu. destruct Gu as [_ Gu].
+                   apply opt_addr_eqb_eq in Gu. rewrite h3, shared_entry. symmetry. exact Gu.
+                ** rewrite upd2_other by tauto. rewrite h3. symmetry.
+                   eapply (res_new_name2 (own_f s) own' (fexp_of (s_fheap s)) (fexp_of sh')); eauto.
+             ++ destruct (upd2_cases (funcs m) c n (Some (s_fnext s)) p' n') as [(-> & -> & ->)|[Hne ->]].
+                ** symmetry. apply res_own, Hown0.
+                ** rewrite h3. symmetry. destruct (N.eq_dec n' n) as [->|Hn'].
+                   --- assert (Hp : p' <> c) by tauto.
+                       eapply (res_new_nonuser (own_f s) own' (fexp_of (s_fheap s)) (fexp_of sh')); eauto.
+                       intros Hi. apply (mem_users m s HC) in Hi. congruence.
+                   --- eapply (res_new_name2 (own_f s) own' (fexp_of (s_fheap s)) (fexp_of sh')); eauto.
+          -- intros p' n' y Hy. destruct (upd2_cases (own_f s) c n (Some (s_fnext s)) p' n') as [(-> & -> & E)|[Hne E]];
+               unfold own' in Hy; rewrite E in Hy.
+             ++ injection Hy as <-. split; [lia|split; [exact Gn|]]. unfold sh'. rewrite upd_same. eexists; split; reflexivity.
+             ++ destruct (h4 _ _ _ Hy) as (H1 & H2 & fi' & H3 & H4). split; [lia|split; [exact H2|]].
+                unfold sh'. rewrite upd_other; [eauto|]. intros ->. exact (Hfresh _ _ Hy).
+          -- eapply inj_new; eauto.
+          -- intros p' n' b Hb. destruct (upd2_cases (own_f s) c n (Some (s_fnext s)) p' n') as [(-> & -> & E)|[Hne E]];
+               unfold own' in Hb; rewrite E in Hb.
+             ++ injection Hb as <-. rewrite h2. unfold sh'. rewrite !upd_same. eexists; eexists.
+                split; [reflexivity|split; [reflexivity|]]. cbn. split; [exact Hl_lh|split; [lia|exact Hpl_l]].
+             ++ assert (Hbn : b <> s_fnext s) by (intros ->; exact (Hfresh _ _ Hb)).
+                rewrite h2. unfold sh'. rewrite !upd_other by exact Hbn. apply Hlive; assumption.
+          -- exact Hpl_lt.
+      + (* a private function *)
+        set (cell := {| sf_pkg := c; sf_val := v; sf_export := false |}).
+        set (sh' := upd (s_fheap s) (s_fnext s) (Some cell)).
+        assert (Hexp : forall y, y <> s_fnext s -> fexp_of sh' y = fexp_of (s_fheap s) y).
+        { intros y Hy. unfold fexp_of, sh'. rewrite upd_other by exact Hy. reflexivity. }
+        assert (Hexp0 : fexp_of sh' (s_fnext s) = false) by (unfold fexp_of, sh'; rewrite upd_same; reflexivity).
+        split; [|split]; [destruct HC; constructor; cbn; auto|exact HV|].
+        unfold RF. cbn. fold l. fold cell; fold own'; fold sh'. constructor.
+        * intros y. rewrite h2. unfold sh', upd. destruct (N.eqb_spec y (s_fnext s)) as [->|]; [|apply h1]. cbn. auto.
+        * rewrite h2. reflexivity.
+        * intros p' n'. rewrite h2. destruct (upd2_cases (funcs m) c n (Some (s_fnext s)) p' n') as [(-> & -> & ->)|[Hne ->]].
+          -- symmetry. apply res_own, Hown0.
+          -- rewrite (res_new_private (own_f s) own' (fexp_of (s_fheap s)) _ _ _ _ _ Hfresh Hnone Hown0 Hown1 Hexp _ _ Hexp0 Hne). auto.
+        * intros p' n' y Hy. destruct (upd2_cases (own_f s) c n (Some (s_fnext s)) p' n') as [(-> & -> & E)|[Hne E]];
+            unfold own' in Hy; rewrite E in Hy.
+          -- injection Hy as <-. split; [lia|split; [exact Gn|]]. unfold sh'. rewrite upd_same. eexists; split; reflexivity.
+          -- destruct (h4 _ _ _ Hy) as (H1 & H2 & fi' & H3 & H4). split; [lia|split; [exact H2|]].
+             unfold sh'. rewrite upd_other; [eauto|]. intros ->. exact (Hfresh _ _ Hy).
+        * eapply inj_new; eauto.
+        * intros p' n' b Hb. destruct (upd2_cases (own_f s) c n (Some (s_fnext s)) p' n') as [(-> & -> & E)|[Hne E]];
+            unfold own' in Hb; rewrite E in Hb.
+          -- injection Hb as <-. rewrite h2. unfold sh'. rewrite !upd_same. eexists; eexists.
+             split; [reflexivity|split; [reflexivity|]]. cbn. split; [exact Hl_lh|split; [lia|exact Hpl_l]].
+          -- assert (Hbn : b <> s_fnext s) by (intros ->; exact (Hfresh _ _ Hb)).
+             rewrite h2. unfold sh'. rewrite !upd_other by exact Hbn. apply Hlive; assumption.
+        * exact Hpl_lt.
+  Qed.
+
+  (* ---- every guarded step preserves the relation ---- *)
+  Theorem step_preserves m s o :
+    Inv m s -> guard_step P NM s o = true -> Inv (step m o) (sstep s o).
+  Proof.
+    intros HI G. destruct o.
     - apply step_inpkg, HI.
     - apply step_use; assumption.
-    - discriminate G.
+    - apply step_unuse; assumption.
     - apply step_export; assumption.
     - apply step_unexport; assumption.
     - apply step_setq; assumption.
@@ -969,26 +1002,21 @@ Section Refine.
   Qed.
 
   (* ---- under the relation every query answers the same ---- *)
-  Lemma q_var_eq m s c n : Inv m s -> mem n VN = true -> q_var m c n = sq_var s c n.
+  Lemma q_var_eq m s c n : Inv m s -> q_var m c n = sq_var s c n.
   Proof.
-    intros (HC & HV & HF) Hn. unfold q_var, sq_var. rewrite (v_tab _ _ _ _ _ _ _ HV _ _ Hn).
-    change (res (own_v s) (vexp_of (s_vheap s)) (s_uses s)) with (resolve_v s).
+    intros (HC & HV & HF). unfold q_var, sq_var. rewrite (vtab m s HV).
     destruct (resolve_v s c n) as [a|]; [|reflexivity]. rewrite (v_heap _ _ _ _ _ _ _ HV). reflexivity.
   Qed.
-  Lemma q_var_q_eq m s p n b : Inv m s -> mem n VN = true -> q_var_q m p n b = sq_var_q s p n b.
+  Lemma q_var_q_eq m s p n b : Inv m s -> q_var_q m p n b = sq_var_q s p n b.
   Proof.
-    intros (HC & HV & HF) Hn. unfold q_var_q, sq_var_q. rewrite (v_tab _ _ _ _ _ _ _ HV _ _ Hn).
-    change (res (own_v s) (vexp_of (s_vheap s)) (s_uses s)) with (resolve_v s).
-    destruct (resolve_v s p n) as [a|] eqn:Er; [|reflexivity]. rewrite (v_heap _ _ _ _ _ _ _ HV).
-    destruct (resv_cell m s p n a HV Hn Er) as (q & vv & _ & Hh & Hval & _). rewrite Hh.
-    destruct (vv_val vv); [reflexivity|congruence].
+    intros (HC & HV & HF). unfold q_var_q, sq_var_q. rewrite (vtab m s HV).
+    destruct (resolve_v s p n) as [a|] eqn:Er; [|reflexivity]. rewrite (v_heap _ _ _ _ _ _ _ HV). reflexivity.
   Qed.
   Lemma q_fun_eq m s c p n b : Inv m s -> q_fun m c p n b = sq_fun s c p n b.
   Proof.
-    intros (HC & HV & HF). unfold q_fun, sq_fun. rewrite (f_tab _ _ _ _ _ _ _ _ _ _ HF).
-    change (res (own_f s) (fexp_of (s_fheap s)) (s_uses s)) with (resolve_f s).
+    intros (HC & HV & HF). unfold q_fun, sq_fun. rewrite (ftab m s HF).
     destruct (resolve_f s p n) as [a|] eqn:Er; [|reflexivity].
-    destruct (resf_cell m s p n a HF Er) as (q & sf0 & Ho & _ & _).
+    destruct (resf_cell m s HF p n a Er) as (q & sf0 & Ho & _ & _).
     destruct (f_live _ _ _ _ _ _ _ _ _ _ HF _ _ _ Ho) as (fi & sf & Hm & Hs & Hl & _).
     destruct (fheap_of_s m s HF a sf Hs) as (fi' & Hm' & Hp & He). rewrite Hm in Hm'. injection Hm' as <-.
     rewrite Hm, Hs, Hp, He, Hl. reflexivity.
@@ -1000,56 +1028,54 @@ Section Refine.
     intros y Hy. apply H. right; exact Hy.
   Qed.
 
-  Theorem observe_eq m s PQ : Inv m s -> observe PQ VN FN m = sobserve PQ VN FN s.
+  (* any observing packages PQ, any variable names VN and function names FN (also overlapping ones) *)
+  Theorem observe_eq m s PQ VN FN : Inv m s -> observe PQ VN FN m = sobserve PQ VN FN s.
   Proof.
     intros HI. unfold observe, sobserve. apply flat_map_ext_in. intros c _. f_equal.
-    - apply flat_map_ext_in. intros n Hn. apply mem_In in Hn. f_equal; [apply q_var_eq; assumption|].
+    - apply flat_map_ext_in. intros n _. f_equal; [apply q_var_eq; assumption|].
       apply flat_map_ext_in. intros p _. rewrite !(q_var_q_eq m s) by assumption. reflexivity.
     - apply flat_map_ext_in. intros n _. f_equal; [apply q_fun_eq; assumption|].
       apply flat_map_ext_in. intros p _. rewrite !(q_fun_eq m s) by assumption. reflexivity.
   Qed.
 
   (* ---- histories ---- *)
-  Definition gprefix := sorted_guard_prefix P VN FN.
-  Theorem refinement_prefix PQ ops : forall m s,
+  Definition gprefix := guard_prefix P NM.
+  Theorem refinement_prefix PQ VN FN ops : forall m s,
     Inv m s -> firstn (gprefix s ops) (run PQ VN FN m ops) = firstn (gprefix s ops) (srun PQ VN FN s ops).
   Proof.
-    induction ops as [|o ops IH]; intros m s HI; [reflexivity|]. unfold gprefix. cbn [sorted_guard_prefix run srun]. fold NMl. fold gprefix.
-    destruct (sorted_op VN FN o && guard_step P NMl s o) eqn:E; [|reflexivity].
-    apply andb_true_iff in E. destruct E as [E1 E2]. pose proof (step_preserves m s o HI E1 E2) as HI'.
-    cbn [firstn]. rewrite (observe_eq _ _ PQ HI'), (IH _ _ HI'). reflexivity.
+    induction ops as [|o ops IH]; intros m s HI; [reflexivity|]. unfold gprefix. cbn [guard_prefix run srun]. fold gprefix.
+    destruct (guard_step P NM s o) eqn:E; [|reflexivity].
+    pose proof (step_preserves m s o HI E) as HI'.
+    cbn [firstn]. rewrite (observe_eq _ _ PQ VN FN HI'), (IH _ _ HI'). reflexivity.
   Qed.
-  Theorem refinement_run PQ ops : forall m s,
-    Inv m s -> forallb (sorted_op VN FN) ops = true -> guard_run P NMl s ops = true ->
-    run PQ VN FN m ops = srun PQ VN FN s ops.
+  Theorem refinement_run PQ VN FN ops : forall m s,
+    Inv m s -> guard_run P NM s ops = true -> run PQ VN FN m ops = srun PQ VN FN s ops.
   Proof.
-    induction ops as [|o ops IH]; intros m s HI Hs G; [reflexivity|]. cbn in Hs, G |- *.
-    apply andb_true_iff in Hs. destruct Hs as [E1 Hs]. apply andb_true_iff in G. destruct G as [E2 G].
-    pose proof (step_preserves m s o HI E1 E2) as HI'. rewrite (observe_eq _ _ PQ HI'), (IH _ _ HI' Hs G). reflexivity.
+    induction ops as [|o ops IH]; intros m s HI G; [reflexivity|]. cbn in G |- *.
+    apply andb_true_iff in G. destruct G as [E2 G].
+    pose proof (step_preserves m s o HI E2) as HI'. rewrite (observe_eq _ _ PQ VN FN HI'), (IH _ _ HI' G). reflexivity.
   Qed.
   (* the relation itself after any guarded history *)
   Theorem refinement_state ops : forall m s,
-    Inv m s -> forallb (sorted_op VN FN) ops = true -> guard_run P NMl s ops = true ->
-    Inv (fold_left step ops m) (fold_left sstep ops s).
+    Inv m s -> guard_run P NM s ops = true -> Inv (fold_left step ops m) (fold_left sstep ops s).
   Proof.
-    induction ops as [|o ops IH]; intros m s HI Hs G; [exact HI|]. cbn in Hs, G |- *.
-    apply andb_true_iff in Hs. destruct Hs as [E1 Hs]. apply andb_true_iff in G. destruct G as [E2 G].
+    induction ops as [|o ops IH]; intros m s HI G; [exact HI|]. cbn in G |- *.
+    apply andb_true_iff in G. destruct G as [E2 G].
     apply IH; auto. apply step_preserves; assumption.
   Qed.
 End Refine.
 
 (* ---- instances for the universe of the correspondence (3 packages, variables 0 1, functions 2 3) ---- *)
 Theorem refinement_PK ops :
-  forallb (sorted_op VN FN) ops = true -> guard_run PK NM (sinit 0) ops = true ->
-  run PK VN FN (init 0) ops = srun PK VN FN (sinit 0) ops.
+  guard_run PK NM (sinit 0) ops = true -> run PK VN FN (init 0) ops = srun PK VN FN (sinit 0) ops.
 Proof.
-  intros Hs G. apply (refinement_run PK VN FN eq_refl PK ops (init 0) (sinit 0)); [apply inv_init|exact Hs|exact G].
+  intros G. apply (refinement_run PK NM PK VN FN ops (init 0) (sinit 0)); [apply inv_init|exact G].
 Qed.
 
 Theorem refinement_prefix_PK ops :
-  let g := sorted_guard_prefix PK VN FN (sinit 0) ops in
+  let g := guard_prefix PK NM (sinit 0) ops in
   firstn g (run PK VN FN (init 0) ops) = firstn g (srun PK VN FN (sinit 0) ops).
-Proof. apply (refinement_prefix PK VN FN eq_refl PK ops (init 0) (sinit 0)), inv_init. Qed.
+Proof. apply (refinement_prefix PK NM PK VN FN ops (init 0) (sinit 0)), inv_init. Qed.
 
 (* the self-check of the correspondence (code 3: M = observed, but M <> S inside the guarded prefix) can never fire *)
 Lemma qres_eqb_refl a : qres_eqb a a = true.
@@ -1063,20 +1089,20 @@ Proof.
   destruct (list_eqb _ _ (snd c)); [discriminate|]. destruct (list_eqb _ _ _); discriminate.
 Qed.
 
-Lemma refinement_general P VN FN : disjoint_names VN FN = true ->
-  forall PQ p0 ops,
-  forallb (sorted_op VN FN) ops = true -> guard_run P (VN ++ FN) (sinit p0) ops = true ->
+Lemma refinement_general P NM :
+  forall PQ VN FN p0 ops,
+  guard_run P NM (sinit p0) ops = true ->
   run PQ VN FN (init p0) ops = srun PQ VN FN (sinit p0) ops.
-Proof. intros H PQ p0 ops Hs G. exact (refinement_run P VN FN H PQ ops _ _ (inv_init P VN FN p0) Hs G). Qed.
+Proof. intros PQ VN FN p0 ops G. exact (refinement_run P NM PQ VN FN ops _ _ (inv_init P NM p0) G). Qed.
 
-Lemma tables_are_the_graph P VN FN : disjoint_names VN FN = true ->
-  forall p0 ops, forallb (sorted_op VN FN) ops = true -> guard_run P (VN ++ FN) (sinit p0) ops = true ->
+Lemma tables_are_the_graph P NM :
+  forall p0 ops, guard_run P NM (sinit p0) ops = true ->
   let m := fold_left step ops (init p0) in let s := fold_left sstep ops (sinit p0) in
-  (forall p n, mem n VN = true -> vars m p n = resolve_v s p n) /\
+  (forall p n, vars m p n = resolve_v s p n) /\
   (forall p n, funcs m p n = resolve_f s p n) /\
   (forall a, vheap m a = s_vheap s a) /\ (forall a, frel (fheap m a) (s_fheap s a)).
 Proof.
-  intros H p0 ops Hs G m s.
-  destruct (refinement_state P VN FN H ops _ _ (inv_init P VN FN p0) Hs G) as (_ & HV & HF).
-  destruct HV as [h1 _ h3 _ _ _ _ _ _]. destruct HF as [g1 _ g3 _ _ _ _ _]. repeat split; assumption.
+  intros p0 ops G m s.
+  destruct (refinement_state P NM ops _ _ (inv_init P NM p0) G) as (_ & HV & HF).
+  destruct HV as [h1 _ h3 _ _]. destruct HF as [g1 _ g3 _ _ _ _]. repeat split; assumption.
 Qed.
